@@ -24,7 +24,11 @@ EXPLANATION = (
     "CREATE TABLE IF NOT EXISTS, keyed inserts are INSERT OR IGNORE, check_database commits, and the column order of "
     "INSERT / SELECT agrees with to_database_tuple / from_database_tuple (each column is bound to the field / key of "
     "the same name, whatever the locals are called) so a reopened database rebuilds the same objects, and the pseudonym "
-    "reload places every token it reads back into tree.elements (not through the bounded gather_token intake). SQLite's atomic commit and behaviour at each kill point are trusted, not explored."
+    "reload places every token it reads back into tree.elements (not through the bounded gather_token intake); the connection is opened and "
+    "kept in the sqlite3 module's implicit-transaction mode (no isolation_level=None / autocommit=True anywhere in the database layer), so that "
+    "Connection.commit() is what ends a transaction.  Where a decision (commit now or defer, row written or not) is carried by a flag, an Enum "
+    "tag, a result record or a callee instead of a dominating test, the same questions are decided by walking every path with the values that "
+    "decide its branches. SQLite's atomic commit and behaviour at each kill point are trusted, not explored."
 )
 
 DB = "ipv8/database.py"
@@ -277,10 +281,16 @@ def _self_target(frame: _Frame, call: ast.Call) -> FuncInfo | None:
     if isinstance(f, ast.Attribute) and _is_self(frame, f.value):
         c = frame.cls or (frame.fi.cls if frame.fi is not None else None)
         return c.lookup(f.attr) if c is not None else None
-    if isinstance(f, ast.Name) and frame.module is not None and any(_is_self(frame, x) for x in call.args if not isinstance(x, ast.Starred)):
+    if isinstance(f, ast.Name) and frame.module is not None and any(_is_self(frame, x) or _is_part_of_self(frame, x) for x in call.args if not isinstance(x, ast.Starred)):
         r = frame.repo.resolve_name(frame.module, f.id)
         return r if isinstance(r, FuncInfo) else None
     return None
+
+
+def _is_part_of_self(frame: _Frame, e: ast.AST) -> bool:
+    """e is an attribute of the object (its connection, its cursor): a module function handed it works on the object"""
+    b, fr = _deref(frame, e)
+    return isinstance(b, ast.Attribute) and _is_self(fr, b.value)
 
 
 def _picked_targets(frame: _Frame, call: ast.Call) -> list[tuple[FuncInfo, tuple]]:
@@ -300,6 +310,56 @@ def _picked_targets(frame: _Frame, call: ast.Call) -> list[tuple[FuncInfo, tuple
 
 def _instance_overrides(c: ClassInfo, attr: str) -> bool:
     return any(stores(m, "self." + attr) for k in c.mro() for m in k.methods.values())
+
+
+def _record_ctor(frame: _Frame, e: ast.AST):
+    """(field names, [(value expression, frame)] per field or None) when e is a NamedTuple class of the repository (no values) or evaluates
+    to an instance built by calling one - through locals and helper parameters; else None"""
+    if frame.module is None:
+        return None
+    b, fr = _deref(frame, e) if frame.fi is not None else (strip_cast(e), frame)
+    k = frame.repo.resolve_class_expr(fr.module, b) if isinstance(b, (ast.Name, ast.Attribute)) and fr.module is not None else None
+    if k is not None:
+        rec = _record_fields(k)
+        return (rec[0], None) if rec is not None and rec[1] else None
+    if not isinstance(b, ast.Call) or fr.module is None:
+        return None
+    k = frame.repo.resolve_class_expr(fr.module, b.func) if isinstance(b.func, (ast.Name, ast.Attribute)) else None
+    rec = _record_fields(k) if k is not None else None
+    if rec is None or not rec[1] or any(kw.arg is None for kw in b.keywords):
+        return None
+    names = rec[0]
+    got: dict[str, tuple] = {}
+    i = 0
+    for a in b.args:
+        if isinstance(a, ast.Starred):
+            v, vfr = _deref(fr, a.value)
+            if not isinstance(v, (ast.Tuple, ast.List)) or any(isinstance(x, ast.Starred) for x in v.elts):
+                # `*obj.to_database_tuple()`: the remaining fields, in order, are the elements of that value
+                rest = [n for n in names[i:] if n not in {kw.arg for kw in b.keywords}]
+                if a is not b.args[-1]:
+                    return None
+                for j, n in enumerate(rest):
+                    got[n] = (ast.Subscript(value=a.value, slice=ast.Constant(value=j), ctx=ast.Load()), fr)
+                i = len(names)
+                break
+            for x in v.elts:
+                if i >= len(names):
+                    return None
+                got[names[i]] = (x, vfr)
+                i += 1
+            continue
+        if i >= len(names):
+            return None
+        got[names[i]] = (a, fr)
+        i += 1
+    for kw in b.keywords:
+        if kw.arg not in names or kw.arg in got:
+            return None
+        got[kw.arg] = (kw.value, fr)
+    if set(got) != set(names):
+        return None
+    return names, [got[n] for n in names]
 
 
 def _ev(frame: _Frame, e: ast.AST | None, depth: int = 0):  # noqa: C901, PLR0911, PLR0912
@@ -335,6 +395,9 @@ def _ev(frame: _Frame, e: ast.AST | None, depth: int = 0):  # noqa: C901, PLR091
         if isinstance(r, ClassInfo):
             return ("<class>", r.name)             # a class used as the key of a dispatch table
         return _UNK
+    if isinstance(e, ast.Attribute) and e.attr == "_fields":
+        rec = _record_ctor(frame, e.value)
+        return tuple(rec[0]) if rec is not None else _UNK
     if isinstance(e, ast.Attribute):
         c = None
         b = e.value
@@ -449,6 +512,10 @@ def _ev(frame: _Frame, e: ast.AST | None, depth: int = 0):  # noqa: C901, PLR091
     if isinstance(e, (ast.GeneratorExp, ast.ListComp)) and len(e.generators) == 1 and not e.generators[0].is_async:
         g = e.generators[0]
         it = _ev(frame, g.iter, depth + 1)
+        if it is _UNK and isinstance(g.target, ast.Name) and not any(isinstance(x, ast.Name) and x.id == g.target.id for y in [e.elt, *g.ifs] for x in ast.walk(y)):
+            rec = _record_ctor(frame, g.iter)          # "?" for _ in row: only the number of fields matters
+            if rec is not None and rec[1] is not None:
+                it = (None,) * len(rec[0])
         if isinstance(it, dict):
             it = tuple(it)
         if not isinstance(it, (tuple, str)) or not isinstance(g.target, ast.Name):
@@ -475,6 +542,9 @@ def _ev_call(frame: _Frame, e: ast.Call, depth: int):  # noqa: C901, PLR0911
     plain = not e.keywords and not any(isinstance(a, ast.Starred) for a in e.args)
     if isinstance(f, ast.Name) and f.id in ("len", "tuple", "list", "str", "sorted", "reversed", "range") and plain and len(e.args) == 1:
         v = _ev(frame, e.args[0], depth + 1)
+        if v is _UNK and f.id == "len":
+            rec = _record_ctor(frame, e.args[0])
+            return len(rec[0]) if rec is not None and rec[1] is not None else _UNK
         if v is _UNK:
             return _UNK
         if f.id == "len":
@@ -602,14 +672,97 @@ _EXEC = ("execute", "executemany", "executescript")
 _WRITE_SQL = re.compile(r"\s*(INSERT|REPLACE|UPDATE|DELETE)", re.I)
 
 
+def _method_ref(frame: _Frame, e: ast.AST, names: tuple) -> str | None:
+    """e evaluates to the bound method self.<one of names> (through locals and helper parameters)"""
+    b, fr = _deref(frame, e)
+    return b.attr if isinstance(b, ast.Attribute) and b.attr in names and _is_self(fr, b.value) else None
+
+
+def _runs_own_method(frame: _Frame, c: ast.Call, names: tuple):
+    """(method name, [(argument, frame)] and [(keyword, value, frame)] supplied before the call's own, does the call add its own arguments)
+    when the call runs self.<one of names>(...) in any spelling: directly, through a bound-method alias, Class.method(self, ...),
+    functools.partial(self.method, ...)(...), operator.methodcaller("method", ...)(self); else None"""
+    f = c.func
+    if isinstance(f, ast.Attribute) and f.attr in names:
+        if _is_self(frame, f.value):
+            return f.attr, [], [], True
+        if frame.fi is not None and frame.cls is not None and c.args and not isinstance(c.args[0], ast.Starred) and _is_self(frame, c.args[0]) \
+                and isinstance(f.value, ast.Name) and not local_defs(frame.fi, f.value.id) and f.value.id not in frame.fi.params():
+            k = frame.repo.resolve_class_expr(frame.module, f.value)
+            if k is not None and k in frame.cls.mro():
+                return f.attr, [], [], "skip-first"
+        return None
+    if frame.fi is None:
+        return None
+    g, fr = f, frame
+    if isinstance(f, ast.Name) and (local_defs(frame.fi, f.id) or f.id in frame.binds):
+        g, fr = _deref(frame, f)
+    if isinstance(g, ast.Attribute):
+        return (g.attr, [], [], True) if g.attr in names and _is_self(fr, g.value) else None
+    if isinstance(g, ast.Call) and g.args and not any(isinstance(a, ast.Starred) for a in g.args) and all(k.arg is not None for k in g.keywords):
+        q = (chain(g.func) or "").split(".")[-1]
+        pre = [(a, fr) for a in g.args[1:]]
+        prekw = [(k.arg, k.value, fr) for k in g.keywords]
+        if q == "partial":
+            m = _method_ref(fr, g.args[0], names)
+            return (m, pre, prekw, True) if m is not None else None
+        if q == "methodcaller" and const_value(g.args[0]) in names and len(c.args) == 1 and not c.keywords and not isinstance(c.args[0], ast.Starred) \
+                and _is_self(frame, c.args[0]):
+            return const_value(g.args[0]), pre, prekw, False
+    return None
+
+
+def _exec_call(frame: _Frame, c: ast.Call):
+    return _runs_own_method(frame, c, _EXEC)
+
+
+def _is_own_commit(frame: _Frame, c: ast.Call) -> bool:
+    """the call runs self.commit() (any spelling)"""
+    return _runs_own_method(frame, c, ("commit",)) is not None
+
+
+def _is_plain_commit(frame: _Frame, c: ast.Call) -> bool:
+    """... and hands it no arguments"""
+    how = _runs_own_method(frame, c, ("commit",))
+    if how is None or how[1] or how[2]:
+        return False
+    return not c.keywords and len(c.args) == (0 if how[3] is True else 1)
+
+
+def _unread_method_use(frame: _Frame, names: tuple) -> ast.AST | None:
+    """a place where self.<one of names> is taken as a value (stored in a table, handed to another function) instead of being called in a
+    way _runs_own_method reads: whether and with what it runs there cannot be told"""
+    if frame.fi is None:
+        return None
+    read = set()
+    for c in calls(frame.fi):
+        if _runs_own_method(frame, c, names) is not None:
+            read.update(id(x) for x in ast.walk(c))
+            f = c.func
+            if isinstance(f, ast.Name):
+                for st, v, _ in local_defs(frame.fi, f.id):
+                    if v is not None:
+                        read.update(id(x) for x in ast.walk(v))
+    for n in walk_no_nested(frame.fi.node):
+        if id(n) in read:
+            continue
+        if isinstance(n, ast.Attribute) and n.attr in names and isinstance(n.ctx, ast.Load) and _is_self(frame, n.value):
+            return n
+        if isinstance(n, ast.Call) and (chain(n.func) or "").split(".")[-1] in ("methodcaller", "getattr") and any(const_value(a) in names for a in n.args):
+            return n
+    return None
+
+
 class _Site:
     """one `self.execute*(...)` call reached from the analysed function, with the frame (parameter bindings) it runs in"""
 
-    def __init__(self, frame: _Frame, call: ast.Call) -> None:
+    def __init__(self, frame: _Frame, call: ast.Call, how=None) -> None:
         self.frame, self.call = frame, call
+        self.method, pre, prekw, own = how if how is not None else (call_name(call), [], [], True)
         # positional arguments with `*<tuple literal / tuple a helper returns>` spread out: (expression, frame it is read in)
-        self.pos: list[tuple[ast.AST, _Frame]] | None = []
-        for a in call.args:
+        self.pos: list[tuple[ast.AST, _Frame]] | None = list(pre)
+        self.kw = list(prekw) + ([(k.arg, k.value, frame) for k in call.keywords] if own else [])
+        for a in (call.args[1:] if own == "skip-first" else call.args if own else []):
             if isinstance(a, ast.Starred):
                 v, fr = _deref(frame, a.value)
                 if isinstance(v, (ast.Tuple, ast.List)) and not any(isinstance(x, ast.Starred) for x in v.elts):
@@ -625,9 +778,9 @@ class _Site:
     def _nth(self, index: int, *names: str) -> tuple[ast.AST, _Frame] | None:
         if self.pos is not None and index < len(self.pos):
             return self.pos[index]
-        for k in self.call.keywords:
-            if k.arg in names:
-                return k.value, self.frame
+        for name, value, fr in self.kw:
+            if name in names:
+                return value, fr
         return None
 
     def _stmt_arg(self) -> tuple[ast.AST, _Frame] | None:
@@ -712,7 +865,7 @@ def _helper_calls(frame: _Frame, generators: bool = False) -> list[tuple[ast.Cal
             active.add(f.fi)
         f = f.caller
     for c in calls(frame.fi):
-        if call_name(c) in _EXEC or call_name(c) == "commit" or not _live(frame, c):
+        if call_name(c) in _EXEC or call_name(c) == "commit" or not _live(frame, c) or _exec_call(frame, c) is not None or _is_own_commit(frame, c):
             continue
         h = _self_target(frame, c)
         picked = [(h, ())] if h is not None else _picked_targets(frame, c)
@@ -729,15 +882,16 @@ def _sql_sites(frame: _Frame, generators: bool = False) -> list[_Site]:
     if frame.fi is None:
         return out
     for c in calls(frame.fi):
-        if call_name(c) in _EXEC and isinstance(c.func, ast.Attribute) and _is_self(frame, c.func.value) and _live(frame, c):
-            out.append(_Site(frame, c))
+        how = _exec_call(frame, c)
+        if how is not None and _live(frame, c):
+            out.append(_Site(frame, c, how))
     for c, h in _helper_calls(frame, generators):
         out += _sql_sites(_bind_call(frame, c, h), generators)
     return out
 
 
 def _commit_calls(frame: _Frame) -> list[ast.Call]:
-    return [c for c in calls(frame.fi) if call_name(c) == "commit" and isinstance(c.func, ast.Attribute) and _is_self(frame, c.func.value)]
+    return [c for c in calls(frame.fi) if _is_own_commit(frame, c)]
 
 
 def _nodes_doing(ctx: Ctx, frame: _Frame, direct) -> list:
@@ -764,7 +918,16 @@ def _commit_nodes(ctx: Ctx, frame: _Frame) -> list:
 def _exc_escapes(cfg, node: ast.AST) -> bool:
     """an exception raised by this call leaves the function as an exception (no handler turns it into a normal return)"""
     starts = [v for n in cfg.nodes_for(node) for v, lab in n.succ if lab == "exc"]
-    return cfg.exit not in cfg.reach(starts)
+    if cfg.exit in cfg.reach(starts):
+        return False
+    # `with contextlib.suppress(...):` around the call turns its exception into a normal continuation just like a handler does
+    module = _G["repo"].module_of(node) if _G["repo"] is not None else None
+    p_ = parent(node)
+    while p_ is not None and p_ is not cfg.func:
+        if isinstance(p_, (ast.With, ast.AsyncWith)) and any(_swallows(module, it.context_expr) for it in p_.items):
+            return False
+        p_ = parent(p_)
+    return True
 
 
 def _committed_before_return(ctx: Ctx, site: _Site) -> bool:
@@ -809,16 +972,30 @@ def rule_commit_after_insert(ctx: Ctx) -> None:
         if not writes and any(s_.text is None for s_ in sites):
             s_ = next(x for x in sites if x.text is None)
             raise AnalysisError(f"undecided: cannot read the statement that {fi.qualname} executes (`{norm(s_.call)[:100]}` in {s_.frame.fi.qualname})")
+        if not writes:
+            for fr in _all_frames(top):
+                u = _unread_method_use(fr, _EXEC)
+                if u is not None:
+                    raise AnalysisError(f"undecided: {fr.fi.qualname} takes `{norm(u)[:80]}` as a value; cannot tell which statement {fi.qualname} executes through it")
         ctx.check(bool(writes), "commit-after-insert", fi, fi.node, f"{fi.qualname} issues its INSERT through self.execute", f"{fi.qualname} has no recognisable write statement")
+        walked: list = []
+
+        def committed(s_: _Site) -> bool:
+            if _committed_before_return(ctx, s_):
+                return True
+            # the commit may depend on a flag / tag / result object that says whether a row was written: decide it path by path
+            if not walked:
+                walked.append(_walk_clean_at_return(ctx, fi, lambda x: bool(_WRITE_SQL.match(x.sql))))
+            return walked[0]
         for s_ in writes:
             here = s_.levels()[0][1]             # the call in the insert function itself: the execute or the helper that leads to it
             h = s_.frame.fi
             if h is fi:
-                ctx.check(_committed_before_return(ctx, s_), "commit-after-insert", fi, here,
+                ctx.check(committed(s_), "commit-after-insert", fi, here,
                           f"{fi.qualname}: every normal path from the INSERT to the return passes self.commit()",
                           f"{fi.qualname} can return after its INSERT without committing: a record whose insert call returned is lost by a crash")
             else:
-                ctx.check(_committed_before_return(ctx, s_), "commit-after-insert", fi, here,
+                ctx.check(committed(s_), "commit-after-insert", fi, here,
                           f"{fi.qualname}: the helper {h.name} (or the caller) commits on every normal path after the INSERT",
                           f"{fi.qualname} writes through {h.qualname}, which can return after the INSERT without committing (the commit is conditional): "
                           "a record whose insert call returned is lost by a crash")
@@ -826,7 +1003,7 @@ def rule_commit_after_insert(ctx: Ctx) -> None:
             g = fr.fi
             cfg = ctx.cfg(g)
             for c in _commit_calls(fr):
-                ctx.check(not c.args and not c.keywords, "commit-after-insert", g, c, "plain commit()", "commit is called with arguments that change its meaning")
+                ctx.check(_is_plain_commit(fr, c), "commit-after-insert", g, c, "plain commit()", "commit is called with arguments that change its meaning")
                 ctx.check(_exc_escapes(cfg, c), "commit-after-insert", g, c, f"{g.qualname}: a failing commit() is not turned into a normal return",
                           f"{g.qualname} catches the exception of a failing commit() and returns normally: the insert call returns although its record was "
                           "not made durable, and a crash afterwards loses it")
@@ -987,6 +1164,7 @@ def _enter_keeps_pending(ctx: Ctx) -> None:
     sv = [(fr.fi, st, v) for fr in _all_frames(_top(ctx, en0)) for st, v in _stored_values(fr.fi, PENDING)]
     if not sv:
         ctx.instance("no-deferred-commit", en0.where(), "__enter__ does not write _pending_commits (nothing is deferred)", nontrivial=False)
+    walked: list = []
     for en, st, v in sv:
         cfg = ctx.cfg(en)
         if v is None and isinstance(st, ast.AugAssign):
@@ -994,6 +1172,10 @@ def _enter_keeps_pending(ctx: Ctx) -> None:
             verdict = (k >= 0) if isinstance(st.op, ast.Add) and k is not None else None
         else:
             verdict = None if v is None else _keeps_pending(ctx, en, cfg, v)
+        if verdict is not True:
+            if not walked:
+                walked.append(_walk_enter_keeps(ctx, en0))
+            verdict = True if walked[0] else verdict
         if verdict is None:
             raise AnalysisError(f"undecided: cannot tell whether `{norm(st)}` in Database.__enter__ keeps the commits already deferred")
         ctx.check(verdict, "no-deferred-commit", en, st, "__enter__ never lowers _pending_commits (a nested with-block keeps the commits deferred by the enclosing one)",
@@ -1121,7 +1303,19 @@ def _is_param(frame: _Frame, e: ast.AST, name: str, rows: list[int] | None = Non
 
 
 def _private_part_of(ctx: Ctx, fi: FuncInfo, allowed: tuple, depth: int = 0) -> bool:
-    """fi is a private helper of the Database class that is only ever called, and only from the allowed members (or from such helpers)"""
+    """fi is a private helper of the Database class (or a private module level function of its module) that is only ever called, and only
+    from the allowed members (or from such helpers)"""
+    if fi.cls is None and fi.module.relpath == DB and fi.name.startswith("_") and not fi.name.startswith("__") and depth <= 3 \
+            and isinstance(parent(fi.node), ast.Module):
+        called = False
+        for n in ast.walk(fi.module.tree):
+            if isinstance(n, ast.Name) and n.id == fi.name and isinstance(n.ctx, ast.Load):
+                g = ctx.repo.function_of(n)
+                if g is None or not (isinstance(parent(n), ast.Call) and parent(n).func is n) or not (g.qualname in allowed or _private_part_of(ctx, g, allowed, depth + 1)):
+                    return False
+                called = True
+        imported = any(isinstance(n, ast.ImportFrom) and any(a.name == fi.name for a in n.names) for m in ctx.repo.modules.values() for n in ast.walk(m.tree))
+        return called and not imported
     if fi.cls is None or fi.cls.name != "Database" or fi.module.relpath != DB or not fi.name.startswith("_") or fi.name.startswith("__") or depth > 3:
         return False
     called = False
@@ -1150,7 +1344,7 @@ def _is_real_commit(c: ast.Call) -> bool:
 
 def _real_commits(frame: _Frame) -> list[tuple[_Frame, ast.Call]]:
     """connection.commit() calls of Database.commit, also when they moved into a helper of the object that was not inlined"""
-    out = [(frame, c) for c in calls(frame.fi) if _is_real_commit(c)]
+    out = [(frame, c) for c in calls(frame.fi) if _is_real_commit_at(frame, c)]
     for c, h in _helper_calls(frame):
         out += _real_commits(_bind_call(frame, c, h))
     return out
@@ -1161,7 +1355,7 @@ def _success_only_after_commit(ctx: Ctx, frame: _Frame, depth: int = 0) -> tuple
     the offending or unreadable return).  A returned call of a helper of the same object is answered by the helper's own returns."""
     cm = frame.fi
     cfg = ctx.cfg(cm)
-    cn = _nodes_doing(ctx, frame, lambda fr: [c for c in calls(fr.fi) if _is_real_commit(c)])
+    cn = _nodes_doing(ctx, frame, lambda fr: [c for c in calls(fr.fi) if _is_real_commit_at(fr, c)])
     helpers: dict[int, list[FuncInfo]] = {}
     for c, h in _helper_calls(frame):
         helpers.setdefault(id(c), []).append(h)
@@ -1205,9 +1399,855 @@ def _success_only_after_commit(ctx: Ctx, frame: _Frame, depth: int = 0) -> tuple
     return bool(rets), None
 
 
-def _returns_true_only_after(ctx: Ctx, cm: FuncInfo) -> None:
+# ------------------------------------------------------------------------------------------------------------------
+# Path-sensitive walk: every path through a function (and the functions it calls with the object), carrying the values that decide
+# its branches - the deferred-commit counter, locals holding constants / Enum members / small result records, the outcome a decision
+# helper returned - and a set of flags raised by events (the real commit ran, a row was written and not yet committed).  It answers
+# "on every path that ..." questions for code whose decision was moved into a flag, a tag, a result object or a callee, where no single
+# dominating test says it.  It only ever PROVES: whatever it does not model raises _Bail and the fact-based verdict stands.
+
+class _Bail(Exception):
+    """the walk met something it does not model: nothing is proved"""
+
+
+class _Abstract:
+    def __init__(self, text: str) -> None:
+        self.text = text
+
+    def __repr__(self) -> str:
+        return self.text
+
+
+_POS = _Abstract("<positive int>")       # the counter when commits are pending (it is never negative)
+_TRUTHY = _Abstract("<true value>")
+_FALSY = _Abstract("<false value>")
+
+
+class _EnumVal:
+    """member of an Enum class whose members are pairwise different"""
+    __slots__ = ("cls", "name", "value")
+
+    def __init__(self, cls: str, name: str, value) -> None:
+        self.cls, self.name, self.value = cls, name, value
+
+    def __eq__(self, o) -> bool:
+        return isinstance(o, _EnumVal) and (o.cls, o.name) == (self.cls, self.name)
+
+    def __hash__(self) -> int:
+        return hash((self.cls, self.name))
+
+    def __repr__(self) -> str:
+        return f"{self.cls}.{self.name}"
+
+
+class _RecVal:
+    """instance of a NamedTuple / dataclass result record: field -> value"""
+    __slots__ = ("cls", "fields", "is_tuple")
+
+    def __init__(self, cls: str, fields: tuple, is_tuple: bool) -> None:
+        self.cls, self.fields, self.is_tuple = cls, fields, is_tuple
+
+    def __eq__(self, o) -> bool:
+        return isinstance(o, _RecVal) and (o.cls, o.fields) == (self.cls, self.fields)
+
+    def __hash__(self) -> int:
+        return hash((self.cls, tuple((k, _vkey(v)) for k, v in self.fields)))
+
+    def get(self, name: str):
+        return dict(self.fields).get(name, _UNK)
+
+
+def _vkey(v):
+    if isinstance(v, tuple):
+        return ("tuple", tuple(_vkey(x) for x in v))
+    return (type(v).__name__, v)
+
+
+def _hashable(v):
+    """values the walk carries: constants, tuples of them, Enum members, records, the abstract markers"""
+    if isinstance(v, (bool, int, str, bytes, type(None), _Abstract, _Unknown, _EnumVal, _RecVal)):
+        return v
+    if isinstance(v, tuple):
+        return tuple(_hashable(x) for x in v)
+    return _UNK
+
+
+def _truth(v) -> bool | None:
+    if v is _POS or v is _TRUTHY:
+        return True
+    if v is _FALSY:
+        return False
+    if isinstance(v, (_Unknown, _EnumVal)):
+        return None          # an Enum class may define its own truth value
+    if isinstance(v, _RecVal):
+        return True if v.fields and v.is_tuple else None
+    return bool(v)
+
+
+def _plain(v) -> bool:
+    return isinstance(v, (bool, int, str, bytes, type(None), tuple)) and not (isinstance(v, tuple) and any(not _plain(x) for x in v))
+
+
+def _compare(op: ast.cmpop, l, r):  # noqa: C901, PLR0911, PLR0912
+    """outcome of `l op r` on walk values: True / False / _UNK"""
+    if isinstance(op, (ast.NotEq, ast.IsNot, ast.NotIn)):
+        inv = {ast.NotEq: ast.Eq, ast.IsNot: ast.Is, ast.NotIn: ast.In}[type(op)]()
+        v = _compare(inv, l, r)
+        return _UNK if v is _UNK else not v
+    if isinstance(op, (ast.Eq, ast.Is)):
+        if isinstance(l, _EnumVal) and isinstance(r, _EnumVal) and l.cls == r.cls:
+            return l == r
+        for a, b in ((l, r), (r, l)):
+            if a is _POS and type(b) is int:
+                return False if b <= 0 else _UNK
+            if a is _POS and b is None:
+                return False
+        if _plain(l) and _plain(r) and not isinstance(l, tuple) and not isinstance(r, tuple):
+            if isinstance(op, ast.Is) and type(l) is not type(r):
+                return False
+            return l == r
+        return _UNK
+    if isinstance(op, ast.In):
+        if isinstance(r, tuple):
+            outs = [_compare(ast.Eq(), l, x) for x in r]
+            if any(o is True for o in outs):
+                return True
+            return False if all(o is False for o in outs) else _UNK
+        if isinstance(l, str) and isinstance(r, str):
+            return l in r
+        return _UNK
+    if isinstance(op, (ast.Gt, ast.GtE)):
+        return _compare(ast.Lt() if isinstance(op, ast.Gt) else ast.LtE(), r, l)
+    if isinstance(op, (ast.Lt, ast.LtE)):
+        strict = isinstance(op, ast.Lt)
+        if type(l) is int and type(r) is int:
+            return l < r if strict else l <= r
+        if l is _POS and type(r) is int:           # n < r / n <= r with n >= 1
+            return False if (r <= 1 if strict else r <= 0) else _UNK
+        if r is _POS and type(l) is int:           # l < n / l <= n with n >= 1
+            return True if (l <= 0 if strict else l <= 1) else _UNK
+        return _UNK
+    return _UNK
+
+
+def _arith(op: ast.operator, l, r):
+    if isinstance(op, ast.Add):
+        if type(l) is int and type(r) is int:
+            return l + r
+        for a, b in ((l, r), (r, l)):
+            if a is _POS and type(b) is int and b >= 0:
+                return _POS
+        if type(l) is type(r) and isinstance(l, (str, bytes, tuple)) and _plain(l) and _plain(r):
+            return l + r
+    if isinstance(op, ast.Sub) and type(l) is int and type(r) is int:
+        return l - r
+    return _UNK
+
+
+_ENUM_BASES = {"Enum", "IntEnum", "StrEnum", "Flag", "IntFlag"}
+
+
+def _enum_member(repo, module, e: ast.AST):
+    """`Cls.MEMBER` of an Enum class of the repository whose members all have different constant values (no aliases)"""
+    if not isinstance(e, ast.Attribute) or module is None:
+        return None
+    c = repo.resolve_class_expr(module, e.value)
+    if c is None or not (c.all_base_names() & _ENUM_BASES) or e.attr not in c.attrs or e.attr.startswith("_"):
+        return None
+    members = {k: v for k, v in c.attrs.items() if not k.startswith("_")}
+    vals = [const_value(v) for v in members.values()]
+    autos = [isinstance(v, ast.Call) and (chain(v.func) or "").split(".")[-1] == "auto" for v in members.values()]
+    if all(autos):
+        return _EnumVal(c.name, e.attr, _UNK)
+    if any(not isinstance(v, (int, str, bytes)) for v in vals) or len({_vkey(v) for v in vals}) != len(vals):
+        return None
+    return _EnumVal(c.name, e.attr, const_value(members[e.attr]))
+
+
+def _record_fields(c: ClassInfo) -> tuple[list[str], bool] | None:
+    """field names (in order) of a NamedTuple / dataclass without a hand-written constructor; is it a tuple?"""
+    is_nt = "NamedTuple" in c.base_names
+    is_dc = any((chain(d.func) if isinstance(d, ast.Call) else chain(d) or "").split(".")[-1] == "dataclass" for d in c.node.decorator_list)
+    if not (is_nt or is_dc) or c.bases or "__init__" in c.methods or "__new__" in c.methods or "__post_init__" in c.methods:
+        return None
+    names = [s.target.id for s in c.node.body if isinstance(s, ast.AnnAssign) and isinstance(s.target, ast.Name)]
+    return (names, is_nt) if names else None
+
+
+def _scope_names(fi: FuncInfo) -> set[str]:
+    """every name the function binds itself (parameters, assigned / looped / captured / imported names, nested definitions)"""
+    out = set(fi.params())
+    for n in walk_no_nested(fi.node):
+        if isinstance(n, ast.Name) and isinstance(n.ctx, (ast.Store, ast.Del)):
+            out.add(n.id)
+        elif isinstance(n, ast.ExceptHandler) and n.name:
+            out.add(n.name)
+        elif isinstance(n, (ast.FunctionDef, ast.AsyncFunctionDef, ast.ClassDef)) and n is not fi.node:
+            out.add(n.name)
+        elif isinstance(n, (ast.MatchAs, ast.MatchStar)) and n.name:
+            out.add(n.name)
+        elif isinstance(n, ast.MatchMapping) and n.rest:
+            out.add(n.rest)
+        elif isinstance(n, (ast.Import, ast.ImportFrom)):
+            out.update((a.asname or a.name).split(".")[0] for a in n.names)
+    return out
+
+
+def _is_pending_expr(frame: _Frame, e: ast.AST) -> bool:
+    e = strip_cast(e)
+    return isinstance(e, ast.Attribute) and e.attr == "_pending_commits" and _is_self(frame, e.value)
+
+
+def _denotes_connection(frame: _Frame, e: ast.AST | None) -> bool:
+    """e is the sqlite connection of the object (self._connection through casts, locals and helper parameters)"""
+    if e is None:
+        return False
+    b, fr = _deref(frame, e)
+    return isinstance(b, ast.Attribute) and b.attr == "_connection" and _is_self(fr, b.value)
+
+
+def _is_commit_caller(frame: _Frame, e: ast.AST) -> bool:
+    """e evaluates to operator.methodcaller("commit") (written in place, or a local / module level constant)"""
+    e = strip_cast(e)
+    if isinstance(e, ast.Name) and frame.fi is not None:
+        b, fr = _deref(frame, e)
+        if b is not e:
+            return _is_commit_caller(fr, b)
+        r = frame.repo.resolve_name(frame.module, e.id) if frame.module is not None and e.id not in _scope_names(frame.fi) else None
+        return isinstance(r, tuple) and r[0] == "const" and _is_commit_caller(_Frame(frame.repo, module=r[1]), r[2])
+    return isinstance(e, ast.Call) and (chain(e.func) or "").split(".")[-1] == "methodcaller" and len(e.args) == 1 and not e.keywords \
+        and const_value(e.args[0]) == "commit"
+
+
+def _is_real_commit_at(frame: _Frame, c: ast.Call) -> bool:
+    """the call runs Connection.commit() on the connection of the object, in any of its spellings: conn.commit() (through casts, local
+    aliases and helper parameters), a bound-method alias, Connection.commit(conn), getattr(conn, "commit")(), methodcaller("commit")(conn)"""
+    if _is_real_commit(c):
+        return True
+    if frame.fi is None or c.keywords:
+        return False
+    f = strip_cast(c.func)
+    if isinstance(f, ast.Name) and (local_defs(frame.fi, f.id) or f.id in frame.binds):
+        f, fr = _deref(frame, f)
+    else:
+        fr = frame
+    if isinstance(f, ast.Attribute) and f.attr == "commit":
+        if not c.args and _denotes_connection(fr, f.value):
+            return True
+        return len(c.args) == 1 and (chain(f.value) or "").split(".")[-1] == "Connection" and _denotes_connection(frame, c.args[0])
+    if isinstance(f, ast.Call) and chain(f.func) == "getattr" and len(f.args) == 2 and const_value(f.args[1]) == "commit" and not c.args:
+        return _denotes_connection(fr, f.args[0])
+    if len(c.args) == 1 and not isinstance(c.args[0], ast.Starred) and _is_commit_caller(fr, f):
+        return _denotes_connection(frame, c.args[0])
+    return False
+
+
+def _swallows(module, e: ast.AST) -> bool:
+    """a context manager that turns an exception of its body into a normal continuation (contextlib.suppress)"""
+    e = strip_cast(e)
+    if not isinstance(e, ast.Call):
+        return False
+    q = _qualified_callee(module, e) if module is not None else (chain(e.func) or "")
+    return q.split(".")[-1] == "suppress"
+
+
+class _WState:
+    """one point of a walk: the counter, the raised flags, the values of the locals, the value being returned"""
+    __slots__ = ("p", "flags", "env", "ret")
+
+    def __init__(self, p, flags: frozenset, env: dict, ret=None) -> None:
+        self.p, self.flags, self.env, self.ret = p, flags, env, ret
+
+    def key(self) -> tuple:
+        return (_vkey(self.p), self.flags, tuple(sorted((k, _vkey(v)) for k, v in self.env.items())), _vkey(self.ret))
+
+    def but(self, **kw) -> "_WState":
+        s_ = _WState(self.p, self.flags, self.env, self.ret)
+        for k, v in kw.items():
+            setattr(s_, k, v)
+        return s_
+
+    def bind(self, name: str, v) -> "_WState":
+        return self.but(env={**self.env, name: _hashable(v)})
+
+    def flag(self, name: str, on: bool = True) -> "_WState":
+        return self.but(flags=self.flags | {name} if on else self.flags - {name})
+
+
+class _PathWalk:
+    """on_call(frame, call, state) -> list of states when the call is an event of interest (it is then not followed), else None"""
+
+    def __init__(self, ctx: Ctx, on_call, max_steps: int = 20000) -> None:
+        self.ctx, self.on_call, self.max_steps = ctx, on_call, max_steps
+        self.steps = 0
+        self.side: list[_WState] = []          # states from which the node being evaluated may still raise (after an event / inside a callee)
+        self.thrown = 0                        # how many of them left a callee by an exception
+        self.scopes: dict[int, set[str]] = {}
+
+    # -- entry point
+    def function(self, fi: FuncInfo, p, flags=frozenset(), params: dict | None = None) -> tuple[list[_WState], list[_WState]]:
+        """(states at the normal exit, states at the exceptional exit) of fi run on the object with counter value p; parameters are
+        unknown unless given"""
+        frame = _top(self.ctx, fi)
+        return self.run(frame, _WState(p, frozenset(flags), {x: (params or {}).get(x, _UNK) for x in fi.params()}))
+
+    def run(self, frame: _Frame, st0: _WState) -> tuple[list[_WState], list[_WState]]:
+        fi = frame.fi
+        if fi is None or fi.is_async or frame.depth() > _MAX_FRAMES:
+            raise _Bail("cannot follow " + (fi.qualname if fi is not None else "?"))
+        for n in walk_no_nested(fi.node):
+            if isinstance(n, (ast.Yield, ast.YieldFrom, ast.Await, ast.Nonlocal, ast.Global, ast.Match, ast.AsyncWith, ast.AsyncFor)) or n.__class__.__name__ == "TryStar":
+                raise _Bail(f"{fi.qualname}: {n.__class__.__name__} is not modelled")
+        f = frame.caller
+        while f is not None:
+            if f.fi is fi:
+                raise _Bail("recursion")
+            f = f.caller
+        allowed = {"db_call", "staticmethod", "classmethod", "abstractmethod"}
+        if frame.caller is not None and any(d.split(".")[-1] not in allowed for d in fi.decorator_names()):
+            raise _Bail(f"{fi.qualname} is wrapped by a decorator")
+        cfg = self.ctx.cfg(fi)
+        seen: set = set()
+        normal: dict = {}
+        raised: dict = {}
+        todo = [(cfg.entry, st0)]
+        while todo:
+            n, st = todo.pop()
+            k = (n.id, st.key())
+            if k in seen:
+                continue
+            seen.add(k)
+            self.steps += 1
+            if self.steps > self.max_steps:
+                raise _Bail("too many paths")
+            if n is cfg.exit:
+                normal.setdefault(st.key(), st)
+                continue
+            if n is cfg.raise_exit:
+                raised.setdefault(st.key(), st)
+                continue
+            todo += self.step(frame, n, st)
+        return list(normal.values()), list(raised.values())
+
+    # -- one CFG node
+    def step(self, frame: _Frame, n, st: _WState) -> list:  # noqa: C901, PLR0912
+        a = n.ast
+        exc = [v for v, lab in n.succ if lab == "exc"]
+        nexts = [(v, lab) for v, lab in n.succ if lab != "exc"]
+        self.side, self.thrown = [], 0
+        out: list = []
+        if n.kind == "cond" and a is not None:
+            for v, s_ in self.ev(frame, st, a):
+                t = _truth(v)
+                for succ, lab in nexts:
+                    if (lab is True and t is False) or (lab is False and t is True):
+                        continue
+                    s2 = s_
+                    if t is None and lab in (True, False) and isinstance(strip_cast(a), ast.Name) and strip_cast(a).id in s_.env:
+                        s2 = s_.bind(strip_cast(a).id, _TRUTHY if lab else _FALSY)
+                    out.append((succ, s2))
+        elif n.kind == "loop" and isinstance(a, ast.For):
+            for succ, lab in nexts:
+                out.append((succ, self.store(frame, st, a.target, _UNK) if lab is True else st))
+        elif n.kind == "handler" and isinstance(a, ast.ExceptHandler):
+            s2 = st.bind(a.name, _UNK) if a.name else st
+            out += [(succ, s2) for succ, _ in nexts]
+        elif n.kind == "stmt" and a is not None:
+            for s_ in self.statement(frame, st, a):
+                out += [(succ, s_) for succ, _ in nexts]
+        else:
+            out += [(succ, st) for succ, _ in nexts]
+        pending_exc = [st, *self.side] if n.kind in ("stmt", "cond") else [st]
+        thrown = self.thrown
+        self.side, self.thrown = [], 0
+        if exc:
+            out += [(v, s_) for v in exc for s_ in pending_exc]
+        elif thrown:
+            raise _Bail("a callee raises where the control-flow graph has no exceptional edge")
+        return out
+
+    def statement(self, frame: _Frame, st: _WState, a: ast.AST) -> list[_WState]:  # noqa: C901, PLR0911, PLR0912
+        if isinstance(a, ast.Return):
+            if a.value is None:
+                return [st.but(ret=None)]
+            return [s_.but(ret=_hashable(v)) for v, s_ in self.ev(frame, st, a.value)]
+        if isinstance(a, ast.Assign):
+            outs = []
+            for v, s_ in self.ev(frame, st, a.value):
+                for t in a.targets:
+                    s_ = self.store(frame, s_, t, v)
+                outs.append(s_)
+            return outs
+        if isinstance(a, ast.AnnAssign):
+            if a.value is None:
+                return [st]
+            return [self.store(frame, s_, a.target, v) for v, s_ in self.ev(frame, st, a.value)]
+        if isinstance(a, ast.AugAssign):
+            outs = []
+            for cur, s1 in self.ev(frame, st, a.target):
+                for v, s2 in self.ev(frame, s1, a.value):
+                    outs.append(self.store(frame, s2, a.target, _arith(a.op, cur, v)))
+            return outs
+        if isinstance(a, ast.Expr):
+            return [s_ for _, s_ in self.ev(frame, st, a.value)]
+        if isinstance(a, ast.With):
+            states = [st]
+            for it in a.items:
+                if _swallows(frame.module, it.context_expr):
+                    raise _Bail("a context manager that swallows exceptions")
+                states = [s2 for s1 in states for _, s2 in self.ev(frame, s1, it.context_expr)]
+                if it.optional_vars is not None:
+                    states = [self.store(frame, s1, it.optional_vars, _UNK) for s1 in states]
+            return states
+        if isinstance(a, ast.Raise):
+            states = [st]
+            for part in (a.exc, a.cause):
+                if part is not None:
+                    states = [s2 for s1 in states for _, s2 in self.ev(frame, s1, part)]
+            self.side += states
+            return []
+        if isinstance(a, ast.Assert):
+            return []           # the failing side of an assert: it raises
+        if isinstance(a, ast.Delete):
+            for t in a.targets:
+                st = self.store(frame, st, t, _UNK)
+            return [st]
+        if isinstance(a, (ast.FunctionDef, ast.AsyncFunctionDef, ast.ClassDef)):
+            return [st.bind(a.name, _UNK)]
+        if isinstance(a, (ast.Import, ast.ImportFrom)):
+            for al in a.names:
+                st = st.bind((al.asname or al.name).split(".")[0], _UNK)
+            return [st]
+        if isinstance(a, (ast.Pass, ast.Break, ast.Continue)):
+            return [st]
+        if isinstance(a, ast.expr):           # the iterable of a for loop
+            return [s_ for _, s_ in self.ev(frame, st, a)]
+        raise _Bail(f"{a.__class__.__name__} is not modelled")
+
+    def store(self, frame: _Frame, st: _WState, target: ast.AST, v) -> _WState:
+        if isinstance(target, ast.Name):
+            return st.bind(target.id, v)
+        if isinstance(target, (ast.Tuple, ast.List)):
+            stars = any(isinstance(t, ast.Starred) for t in target.elts)
+            vals = list(v) if isinstance(v, tuple) and len(v) == len(target.elts) and not stars else \
+                [x for _, x in v.fields] if isinstance(v, _RecVal) and v.is_tuple and len(v.fields) == len(target.elts) and not stars else None
+            for i, t in enumerate(target.elts):
+                st = self.store(frame, st, t.value if isinstance(t, ast.Starred) else t, vals[i] if vals is not None else _UNK)
+            return st
+        if _is_pending_expr(frame, target):
+            return st.but(p=v if (type(v) is int or v is _POS) else _UNK)
+        return st              # other attributes / items of the object are not tracked
+
+    # -- expressions: [(value, state after evaluating)]
+    def ev(self, frame: _Frame, st: _WState, e: ast.AST) -> list:  # noqa: C901, PLR0911, PLR0912
+        e = strip_cast(e)
+        if isinstance(e, ast.Constant):
+            return [(_hashable(e.value), st)]
+        if isinstance(e, ast.Name):
+            return [(self.name(frame, st, e), st)]
+        if isinstance(e, ast.NamedExpr):
+            return [(v, self.store(frame, s_, e.target, v)) for v, s_ in self.ev(frame, st, e.value)]
+        if isinstance(e, ast.Attribute):
+            if _is_pending_expr(frame, e):
+                return [(st.p, st)]
+            m = _enum_member(frame.repo, frame.module, e)
+            if m is not None:
+                return [(m, st)]
+            outs = []
+            for b, s_ in self.ev(frame, st, e.value):
+                if isinstance(b, _RecVal):
+                    outs.append((b.get(e.attr), s_))
+                elif isinstance(b, _EnumVal) and e.attr in ("name", "value"):
+                    outs.append((b.name if e.attr == "name" else b.value, s_))
+                else:
+                    outs.append((_hashable(_ev(frame, e)), s_))          # a class level constant of the object / of a named class
+            return outs
+        if isinstance(e, ast.Call):
+            return self.call(frame, st, e)
+        if isinstance(e, ast.UnaryOp):
+            outs = []
+            for v, s_ in self.ev(frame, st, e.operand):
+                if isinstance(e.op, ast.Not):
+                    t = _truth(v)
+                    outs.append((_UNK if t is None else not t, s_))
+                elif isinstance(e.op, ast.USub) and type(v) is int:
+                    outs.append((-v, s_))
+                else:
+                    outs.append((_UNK, s_))
+            return outs
+        if isinstance(e, ast.BoolOp):
+            return self.boolop(frame, st, e, 0)
+        if isinstance(e, ast.IfExp):
+            outs = []
+            for v, s_ in self.ev(frame, st, e.test):
+                t = _truth(v)
+                if t is not False:
+                    outs += self.ev(frame, s_, e.body)
+                if t is not True:
+                    outs += self.ev(frame, s_, e.orelse)
+            return outs
+        if isinstance(e, ast.Compare):
+            partial = [([], st)]
+            for x in [e.left, *e.comparators]:
+                partial = [([*vs, v], s2) for vs, s1 in partial for v, s2 in self.ev(frame, s1, x)]
+            outs = []
+            for vs, s_ in partial:
+                res = [_compare(op, vs[i], vs[i + 1]) for i, op in enumerate(e.ops)]
+                outs.append((False if any(r is False for r in res) else _UNK if any(r is _UNK for r in res) else True, s_))
+            return outs
+        if isinstance(e, (ast.Tuple, ast.List)):
+            partial = [([], st)]
+            starred = False
+            for x in e.elts:
+                starred = starred or isinstance(x, ast.Starred)
+                partial = [([*vs, v], s2) for vs, s1 in partial for v, s2 in self.ev(frame, s1, x.value if isinstance(x, ast.Starred) else x)]
+            return [(_UNK if starred else tuple(vs), s_) for vs, s_ in partial]
+        if isinstance(e, ast.BinOp):
+            return [(_arith(e.op, l, r), s2) for l, s1 in self.ev(frame, st, e.left) for r, s2 in self.ev(frame, s1, e.right)]
+        if isinstance(e, ast.Subscript) and not isinstance(e.slice, ast.Slice):
+            outs = []
+            for b, s1 in self.ev(frame, st, e.value):
+                for k, s2 in self.ev(frame, s1, e.slice):
+                    if isinstance(b, _RecVal) and b.is_tuple:
+                        b = tuple(x for _, x in b.fields)
+                    outs.append((b[k] if isinstance(b, tuple) and type(k) is int and -len(b) <= k < len(b) else _UNK, s2))
+            return outs
+        # anything else has no value the walk needs; it must not hide a call the walk would have to follow
+        for c in ast.walk(e):
+            if isinstance(c, ast.Call) and self.matters(frame, st, c):
+                raise _Bail(f"`{norm(c)[:60]}` inside {e.__class__.__name__}")
+            if isinstance(c, ast.NamedExpr):
+                st = self.store(frame, st, c.target, _UNK)
+        return [(_UNK, st)]
+
+    def boolop(self, frame: _Frame, st: _WState, e: ast.BoolOp, i: int) -> list:
+        outs = []
+        is_and = isinstance(e.op, ast.And)
+        for v, s_ in self.ev(frame, st, e.values[i]):
+            if i == len(e.values) - 1:
+                outs.append((v, s_))
+                continue
+            t = _truth(v)
+            if t is None:
+                outs.append((_FALSY if is_and else _TRUTHY, s_))
+                outs += self.boolop(frame, s_, e, i + 1)
+            elif t is is_and:
+                outs += self.boolop(frame, s_, e, i + 1)
+            else:
+                outs.append((v, s_))
+        return outs
+
+    def name(self, frame: _Frame, st: _WState, e: ast.Name):
+        if e.id in st.env:
+            return st.env[e.id]
+        fi = frame.fi
+        if id(fi.node) not in self.scopes:
+            self.scopes[id(fi.node)] = _scope_names(fi)
+        if e.id in self.scopes[id(fi.node)]:
+            return _UNK                     # a local that has no value on this path
+        if fi.node is not None and any(isinstance(x, (ast.FunctionDef, ast.AsyncFunctionDef, ast.Lambda)) for x in _ancestors(fi.node)):
+            return _UNK                     # a free variable of a nested function
+        return _hashable(_ev(_Frame(frame.repo, module=frame.module, cls=frame.cls), e))
+
+    # -- calls
+    def matters(self, frame: _Frame, st: _WState, c: ast.Call) -> bool:
+        """the call is an event or runs code of the repository on the object"""
+        return self.on_call(frame, c, st) is not None or bool(self.targets(frame, c)) or self.opaque_on_object(frame, c)
+
+    def targets(self, frame: _Frame, c: ast.Call) -> list[FuncInfo]:
+        h = _self_target(frame, c)
+        if h is not None:
+            return [h]
+        picked = _picked_targets(frame, c)
+        if picked:
+            return [h for h, _ in picked]
+        f = strip_cast(c.func)
+        fi = frame.fi
+        if isinstance(f, ast.Name) and f.id not in _scope_names(fi) and frame.module is not None:
+            r = frame.repo.resolve_name(frame.module, f.id)
+            return [r] if isinstance(r, FuncInfo) and r.cls is None else []
+        if isinstance(f, ast.Attribute) and frame.cls is not None:
+            b = f.value
+            if isinstance(b, ast.Attribute) and b.attr == "__class__" and _is_self(frame, b.value):
+                k = frame.cls
+            elif isinstance(b, ast.Call) and chain(b.func) == "type" and len(b.args) == 1 and _is_self(frame, b.args[0]):
+                k = frame.cls
+            else:
+                k = frame.repo.resolve_class_expr(frame.module, b) if isinstance(b, ast.Name) and b.id not in _scope_names(fi) else None
+            if k is not None and (k is frame.cls or k in frame.cls.mro()):
+                m = (frame.cls if k is frame.cls else k).lookup(f.attr)
+                return [m] if m is not None else []
+        return []
+
+    def opaque_on_object(self, frame: _Frame, c: ast.Call) -> bool:
+        """a call the walk cannot follow that is handed the object itself (it may do anything to the counter)"""
+        f = strip_cast(c.func)
+        if isinstance(f, ast.Attribute) and (_is_self(frame, f.value) or (isinstance(f.value, ast.Call) and chain(f.value.func) == "super")):
+            return True
+        if isinstance(f, ast.Name) and f.id in _scope_names(frame.fi) and f.id not in frame.fi.params():
+            return True                       # a nested function / a callable held in a local: it may close over the object
+        return any(_is_self(frame, x.value if isinstance(x, ast.Starred) else x) for x in [*c.args, *[k.value for k in c.keywords]])
+
+    def call(self, frame: _Frame, st: _WState, c: ast.Call) -> list:  # noqa: C901, PLR0912
+        f = strip_cast(c.func)
+        # receiver and arguments, left to right
+        parts: list[ast.AST] = []
+        if isinstance(f, ast.Attribute):
+            parts.append(f.value)
+        elif not isinstance(f, ast.Name):
+            parts.append(f)
+        parts += [x.value if isinstance(x, ast.Starred) else x for x in c.args] + [k.value for k in c.keywords]
+        partial = [({}, st)]
+        for x in parts:
+            partial = [({**vs, id(x): v}, s2) for vs, s1 in partial for v, s2 in self.ev(frame, s1, x)]
+        outs = []
+        for vals, s_ in partial:
+            ev = self.on_call(frame, c, s_)
+            if ev is not None:
+                self.side += ev
+                outs += [(_UNK, x) for x in ev]
+                continue
+            pure = self.builtin(frame, c, f, vals)
+            if pure is not None:
+                outs.append((pure[0], s_))
+                continue
+            ts = self.targets(frame, c)
+            if not ts:
+                if self.opaque_on_object(frame, c):
+                    s_ = s_.but(p=_UNK)
+                    self.side.append(s_)
+                outs.append((_UNK, s_))
+                continue
+            for h in ts:
+                outs += self.follow(frame, s_, c, h, vals)
+        self.side += [x for _, x in outs]          # what follows in the same statement may still raise
+        return outs
+
+    def builtin(self, frame: _Frame, c: ast.Call, f: ast.AST, vals: dict):
+        """(value,) of a call of a side-effect free builtin / of a result record constructor, else None"""
+        if not isinstance(f, ast.Name) or f.id in _scope_names(frame.fi):
+            return None
+        plain = not c.keywords and not any(isinstance(x, ast.Starred) for x in c.args)
+        args = [vals.get(id(x), _UNK) for x in c.args]
+        if f.id == "bool" and plain and len(args) == 1:
+            t = _truth(args[0])
+            return (_UNK if t is None else t,)
+        if f.id == "int" and plain and len(args) == 1 and (type(args[0]) in (int, bool) or args[0] is _POS):
+            return (args[0] if args[0] is _POS else int(args[0]),)
+        if f.id in ("max", "min") and plain and len(args) >= 2:
+            if all(type(x) is int for x in args):
+                return ((max if f.id == "max" else min)(args),)
+            if f.id == "max" and all(type(x) is int or x is _POS for x in args):
+                return (_POS,)
+            return (_UNK,)
+        if f.id in ("len", "isinstance", "issubclass", "str", "repr", "id", "hash", "type", "getattr", "hasattr", "callable", "tuple", "list", "set",
+                    "frozenset", "dict", "sorted", "abs", "range", "enumerate", "zip", "any", "all", "sum", "print", "cast"):
+            r = frame.repo.resolve_name(frame.module, f.id) if frame.module is not None else None
+            return (_UNK,) if r is None else None
+        k = frame.repo.resolve_class_expr(frame.module, f) if frame.module is not None else None
+        if k is not None:
+            rec = _record_fields(k)
+            if rec is not None and not any(isinstance(x, ast.Starred) for x in c.args) and all(kw.arg is not None for kw in c.keywords):
+                names, is_tuple = rec
+                got = dict(zip(names, args))
+                got.update({kw.arg: vals.get(id(kw.value), _UNK) for kw in c.keywords})
+                defaults = {s_.target.id: s_.value for s_ in k.node.body if isinstance(s_, ast.AnnAssign) and isinstance(s_.target, ast.Name) and s_.value is not None}
+                fields = []
+                for nme in names:
+                    if nme in got:
+                        fields.append((nme, _hashable(got[nme])))
+                    elif nme in defaults:
+                        fields.append((nme, _hashable(_ev(_Frame(frame.repo, module=k.module, cls=k), defaults[nme]))))
+                    else:
+                        return None
+                if len(c.args) <= len(names) and set(got) <= set(names):
+                    return (_RecVal(k.name, tuple(fields), is_tuple),)
+        return None
+
+    def follow(self, frame: _Frame, st: _WState, c: ast.Call, h: FuncInfo, vals: dict) -> list:
+        """run h for this call: its parameters get the values of the arguments, the counter and the flags go in and come back out"""
+        if any(isinstance(x, (ast.Yield, ast.YieldFrom)) for x in walk_no_nested(h.node)):
+            raise _Bail(f"{h.qualname} is a generator")
+        call = c
+        f = strip_cast(c.func)
+        decs = [d.split(".")[-1] for d in h.decorator_names()]
+        if h.cls is not None and "staticmethod" not in decs and "classmethod" not in decs and isinstance(f, ast.Attribute) and not _is_self(frame, f.value) \
+                and _self_target(frame, c) is None and not _picked_targets(frame, c):
+            # Cls.method(obj, ...): the first argument is the receiver
+            if not c.args or isinstance(c.args[0], ast.Starred):
+                raise _Bail("unbound call without receiver")
+            call = ast.Call(func=ast.Attribute(value=c.args[0], attr=f.attr, ctx=ast.Load()), args=list(c.args[1:]), keywords=list(c.keywords))
+        elif h.cls is not None and "staticmethod" not in decs and not isinstance(f, ast.Attribute):
+            # a method of the object called through a local alias / picked by a conditional expression
+            if frame.fi.cls is None or "self" not in frame.fi.params():
+                raise _Bail("method called through a value outside a method of the object")
+            call = ast.Call(func=ast.Attribute(value=ast.Name(id="self", ctx=ast.Load()), attr=h.name, ctx=ast.Load()), args=list(c.args), keywords=list(c.keywords))
+        sub = _bind_call(frame, call, h)
+        sub.call = c
+        env: dict = {}
+        for pname in h.params():
+            env[pname] = _UNK
+            if pname in sub.binds:
+                x, fr = sub.binds[pname]
+                if fr is frame:
+                    if id(x) in vals:
+                        env[pname] = vals[id(x)]
+                    elif isinstance(x, ast.Tuple) and all(id(y) in vals for y in x.elts):          # *rest
+                        env[pname] = tuple(vals[id(y)] for y in x.elts)
+                else:
+                    env[pname] = _hashable(_ev(fr, x))            # a default value
+        saved = self.side, self.thrown
+        normal, raised = self.run(sub, _WState(st.p, st.flags, {k: _hashable(v) for k, v in env.items()}))
+        self.side = saved[0] + [st.but(p=s_.p, flags=s_.flags) for s_ in raised]
+        self.thrown = saved[1] + len(raised)
+        return [(s_.ret, st.but(p=s_.p, flags=s_.flags)) for s_ in normal]
+
+
+def _ancestors(node: ast.AST):
+    p_ = parent(node)
+    while p_ is not None:
+        yield p_
+        p_ = parent(p_)
+
+
+def _commit_walk(ctx: Ctx, fi: FuncInfo, p) -> tuple[list[_WState], list[_WState]]:
+    """all paths through fi entered with counter value p; the flag "done" says that connection.commit() completed on the path"""
+    return _PathWalk(ctx, lambda fr, c, st: [st.flag("done")] if _is_real_commit_at(fr, c) else None).function(fi, p)
+
+
+def _walk_commits_when_idle(ctx: Ctx, cm: FuncInfo) -> bool:
+    """proved path by path: commit() entered while no commits are pending cannot return normally without having completed
+    connection.commit() - whatever flag, tag, result object or callee carries the decision"""
+    try:
+        normal, _ = _commit_walk(ctx, cm, 0)
+    except (_Bail, AnalysisError, RecursionError, AttributeError, TypeError, KeyError, IndexError, ValueError):          # no proof
+        return False
+    return bool(normal) and all("done" in s_.flags for s_ in normal)
+
+
+def _walk_true_only_after_commit(ctx: Ctx, cm: FuncInfo) -> bool:
+    """proved path by path (counter zero / non-zero at entry): a path that returns a possibly true value completed connection.commit()"""
+    try:
+        outs = [s_ for p in (0, _POS) for s_ in _commit_walk(ctx, cm, p)[0]]
+    except (_Bail, AnalysisError, RecursionError, AttributeError, TypeError, KeyError, IndexError, ValueError):          # no proof
+        return False
+    return bool(outs) and all("done" in s_.flags or _truth(s_.ret) is False for s_ in outs)
+
+
+def _walk_enter_keeps(ctx: Ctx, en: FuncInfo) -> bool:
+    """proved path by path: __enter__ entered with n > 0 deferred commits leaves a counter >= n (the marker for n survives only being
+    kept, added to or max()-ed), entered with 0 it leaves a counter >= 0"""
+    try:
+        w = _PathWalk(ctx, lambda fr, c, st: None)
+        zero, some = w.function(en, 0)[0], w.function(en, _POS)[0]
+    except (_Bail, AnalysisError, RecursionError, AttributeError, TypeError, KeyError, IndexError, ValueError):          # no proof
+        return False
+    return bool(zero) and bool(some) and all(s_.p is _POS or (type(s_.p) is int and s_.p >= 0) for s_ in zero) and all(s_.p is _POS for s_ in some)
+
+
+def _walk_counter_zero_after(ctx: Ctx, fi: FuncInfo, starts: tuple) -> bool:
+    """proved path by path: whatever the counter was (one walk per start value), every normal return of fi leaves it at 0"""
+    try:
+        w = _PathWalk(ctx, lambda fr, c, st: None)
+        outs = [w.function(fi, p)[0] for p in starts]
+    except (_Bail, AnalysisError, RecursionError, AttributeError, TypeError, KeyError, IndexError, ValueError):          # no proof
+        return False
+    return all(outs) and all(type(s_.p) is int and s_.p == 0 for o in outs for s_ in o)
+
+
+def _walk_flag_runs(ctx: Ctx, fi: FuncInfo, flag: str, method: str) -> bool:
+    """proved path by path: fi called with <flag>=True cannot return normally without having run self.<method>()"""
+    try:
+        w = _PathWalk(ctx, lambda fr, c, st: [st.flag("ran")] if _runs_own_method(fr, c, (method,)) is not None else None)
+        normal, _ = w.function(fi, _UNK, params={flag: True})
+    except (_Bail, AnalysisError, RecursionError, AttributeError, TypeError, KeyError, IndexError, ValueError):          # no proof
+        return False
+    return bool(normal) and all("ran" in s_.flags for s_ in normal)
+
+
+def _walk_close_commits_first(ctx: Ctx, cl: FuncInfo) -> bool:
+    """proved path by path: close(commit=True) runs self.commit() on every normal path, and before anything else is closed"""
+    def event(fr: _Frame, c: ast.Call, st: _WState):
+        if _is_own_commit(fr, c):
+            return [st.flag("committed")]
+        if call_name(c) == "close" and isinstance(c.func, ast.Attribute) and not _is_self(fr, c.func.value):
+            return [st if "committed" in st.flags else st.flag("closed-early")]
+        return None
+    try:
+        normal, _ = _PathWalk(ctx, event).function(cl, _UNK, params={"commit": True})
+    except (_Bail, AnalysisError, RecursionError, AttributeError, TypeError, KeyError, IndexError, ValueError):          # no proof
+        return False
+    return bool(normal) and all("committed" in s_.flags and "closed-early" not in s_.flags for s_ in normal)
+
+
+def _runs_named(frame: _Frame, c: ast.Call, name: str) -> bool:
+    """the call runs <some object>.<name>(...): directly, through a bound-method alias, functools.partial or operator.methodcaller"""
+    f = strip_cast(c.func)
+    if isinstance(f, ast.Name) and frame.fi is not None and (local_defs(frame.fi, f.id) or f.id in frame.binds):
+        f, fr = _deref(frame, f)
+    else:
+        fr = frame
+    if isinstance(f, ast.Attribute):
+        return f.attr == name
+    if isinstance(f, ast.Call) and f.args:
+        q = (chain(f.func) or "").split(".")[-1]
+        if q == "partial":
+            g, _ = _deref(fr, f.args[0]) if fr.fi is not None else (f.args[0], fr)
+            return isinstance(g, ast.Attribute) and g.attr == name
+        if q == "methodcaller":
+            return const_value(f.args[0]) == name
+    return False
+
+
+def _walk_order(ctx: Ctx, fi: FuncInfo, first: str, then: str) -> bool:
+    """proved path by path: <then>() is reached at least once, and never (not even on a path that ends in an exception) before <first>()
+    has returned"""
+    def event(fr: _Frame, c: ast.Call, st: _WState):
+        if _runs_named(fr, c, first):
+            return [st.flag("first")]
+        if _runs_named(fr, c, then):
+            return [st.flag("then") if "first" in st.flags else st.flag("then").flag("early")]
+        return None
+    try:
+        normal, raised = _PathWalk(ctx, event).function(fi, _UNK)
+    except (_Bail, AnalysisError, RecursionError, AttributeError, TypeError, KeyError, IndexError, ValueError):          # no proof
+        return False
+    return any("then" in s_.flags for s_ in normal) and not any("early" in s_.flags for s_ in [*normal, *raised])
+
+
+def _walk_clean_at_return(ctx: Ctx, fi: FuncInfo, is_write) -> bool:
+    """proved path by path: no normal path through fi (and the helpers of the object it calls) returns after a statement with
+    is_write(site) without a self.commit() after it"""
+    def event(fr: _Frame, c: ast.Call, st: _WState):
+        how = _exec_call(fr, c)
+        if how is not None:
+            site = _Site(fr, c, how)
+            if is_write(site):
+                return [st.flag("dirty")]
+            if site.text is None:
+                raise _Bail("unreadable statement")
+            return [st]
+        how = _runs_own_method(fr, c, ("commit",))
+        if how is not None:
+            if how[1] or how[2] or (how[3] is True and (c.args or c.keywords)) or (how[3] == "skip-first" and (len(c.args) > 1 or c.keywords)):
+                raise _Bail("commit with arguments")
+            return [st.flag("dirty", False)]
+        return None
+    try:
+        normal, _ = _PathWalk(ctx, event).function(fi, _UNK)
+    except (_Bail, AnalysisError, RecursionError, AttributeError, TypeError, KeyError, IndexError, ValueError):          # no proof
+        return False
+    return bool(normal) and not any("dirty" in s_.flags for s_ in normal)
+
+
+def _returns_true_only_after(ctx: Ctx, cm: FuncInfo, reported: bool = False) -> None:
     """commit() reports success (a true value) only on paths that completed connection.commit()"""
     verdict, where = _success_only_after_commit(ctx, _top(ctx, cm))
+    if verdict is not True and _walk_true_only_after_commit(ctx, cm):
+        verdict, where = True, None
+    if verdict is None and reported:
+        ctx.note("Database.commit: the returned value could not be read; the violation found in the same function is reported instead")
+        return
     if verdict is None:
         raise AnalysisError(f"undecided: cannot tell whether `{norm(where)}` in Database.commit reports success only after connection.commit()")
     ctx.check(verdict, "no-deferred-commit", cm, where if where is not None else cm.node,
@@ -1244,11 +2284,18 @@ def rule_no_deferred(ctx: Ctx) -> None:
     cfge = ctx.cfg(ex_)
     resets = _nodes_doing(ctx, _top(ctx, ex_), lambda fr: [s_ for s_, v in _stored_values(fr.fi, PENDING) if _is_int(v, fr.fi) == 0])
     ok = bool(resets) and cfge.exit not in cfge.reach(cut_nodes=resets, follow_exc=False)
+    ok = ok or _walk_counter_zero_after(ctx, ex_, (0, _POS))
+    if not ok:
+        # every path stores something into the counter, but what is stored cannot be read: no verdict rather than an alarm
+        unread = _nodes_doing(ctx, _top(ctx, ex_), lambda fr: [s_ for s_, v in _stored_values(fr.fi, PENDING) if _is_int(v, fr.fi) is None])
+        if unread and cfge.exit not in cfge.reach(cut_nodes=[*resets, *unread], follow_exc=False):
+            raise AnalysisError(f"undecided: cannot read what `{norm(unread[0].ast)[:80]}` stores into _pending_commits when Database.__exit__ leaves the block")
     ctx.check(ok, "no-deferred-commit", ex_, ex_.node, "__exit__ resets _pending_commits to 0 on every path (also when the body raised)",
               "a `with database:` block whose body raises leaves the database in deferred-commit mode: every later insert returns without being committed")
     init = repo.method("Database", "__init__", DB)
     iv = [(fr.fi, v) for fr in _all_frames(_top(ctx, init)) for _, v in _stored_values(fr.fi, PENDING)]
     ok = bool(iv) and all(_is_int(v, g) == 0 for g, v in iv)
+    ok = ok or _walk_counter_zero_after(ctx, init, (_UNK,))
     ctx.check(ok, "no-deferred-commit", init, init.node, "_pending_commits starts at 0", "databases start in deferred-commit mode")
     _enter_keeps_pending(ctx)
     cm = repo.method("Database", "commit", DB)
@@ -1256,6 +2303,7 @@ def rule_no_deferred(ctx: Ctx) -> None:
     top = _top(ctx, cm)
     real = _real_commits(top)
     ctx.anchor(real, "connection.commit() in Database.commit")
+    n_before = len(ctx.findings)
     for fr, c in real:
         # the guards of every level of the call chain (commit() itself and the helper the real commit may have moved into)
         levels = [*fr.chain_calls(), (fr, c)]
@@ -1272,15 +2320,19 @@ def rule_no_deferred(ctx: Ctx) -> None:
                 unread.append(f)
             else:
                 other.append(f)
-        if unread and not other:
+        guarded = zero and not other
+        if not guarded:
+            # the decision may sit in a flag / tag / result object / callee: decide it path by path
+            guarded = _walk_commits_when_idle(ctx, cm)
+        if unread and not other and not guarded:
             raise AnalysisError(f"undecided: cannot read the decision `{unread[0]}` that guards connection.commit() in Database.commit")
-        ctx.check(zero and not other, "no-deferred-commit", cm, levels[0][1],
+        ctx.check(guarded, "no-deferred-commit", cm, levels[0][1],
                   "connection.commit() runs whenever no commits are pending", "Database.commit() skips the real commit for another reason than a pending with-block", [str(f) for f in fs])
         ctx.check(_exc_escapes(ctx.cfg(fr.fi), c) and all(_exc_escapes(ctx.cfg(lf.fi), lc) for lf, lc in levels), "no-deferred-commit", fr.fi, c,
                   "a failing connection.commit() raises out of Database.commit()",
                   "Database.commit() catches the exception of a failing connection.commit() and returns normally: no caller looks at the return value, so "
                   "insert_token/insert_metadata/insert_attestation return although nothing was made durable, and a kill afterwards loses a record whose insert call had returned")
-    _returns_true_only_after(ctx, cm)
+    _returns_true_only_after(ctx, cm, reported=len(ctx.findings) > n_before)
     cl = repo.method("Database", "close", DB)
     cfgc = ctx.cfg(cl)
     topc = _top(ctx, cl)
@@ -1292,8 +2344,10 @@ def rule_no_deferred(ctx: Ctx) -> None:
     clos = _nodes_maybe(ctx, topc, lambda fr, c: call_name(c) == "close" and not _is_self(fr, c.func.value if isinstance(c.func, ast.Attribute) else None))
     after_close = cfgc.reach([v for n in clos for v, lab in n.succ])
     ok = ok and all(not any(x in after_close for x in cfgc.nodes_for(fr.chain_calls()[0][1] if fr.caller is not None else c)) for fr, c in cmt)
-    d = [a for a in cl.node.args.defaults]
-    ok = ok and d and const_value(d[-1]) is True
+    ok = ok or _walk_close_commits_first(ctx, cl)
+    d = {a.arg: const_value(v) for a, v in zip(cl.node.args.args[-len(cl.node.args.defaults):], cl.node.args.defaults)} if cl.node.args.defaults else {}
+    d.update({a.arg: const_value(v) for a, v in zip(cl.node.args.kwonlyargs, cl.node.args.kw_defaults) if v is not None})
+    ok = ok and d.get("commit") is True
     ctx.check(ok, "no-deferred-commit", cl, cl.node, "close(commit=True) commits before closing the connection", "close() does not commit before closing")
 
 
@@ -1424,10 +2478,11 @@ class _PragmaWalk:
         self.top = top
         self.steps = 0
         self.found: dict = {}                 # pragma statements met on the way: (call, call chain) -> (frame, call, [(key, value)])
+        self.unread: list = []                # tests on the answer of a helper that looks at the settings and whose answer could not be followed
 
     @staticmethod
     def start() -> dict:
-        st = {"ent": frozenset(), "ret": None, "last": None}
+        st = {"ent": frozenset(), "ret": None, "last": None, "dec": frozenset()}          # dec: locals holding a decision (constant / Enum member) on this path
         for kind in ("journal", "sync"):
             st[kind] = (None, None, False)          # (database setting, mirror local, local is known to equal the setting)
         return st
@@ -1500,13 +2555,72 @@ class _PragmaWalk:
                 continue
             nxt = []
             for s_ in states:
-                nxt += self.run(_bind_call(frame, c, h), dict(s_, ret=None))
+                nxt += [dict(o, dec=s_["dec"]) for o in self.run(_bind_call(frame, c, h), dict(s_, ret=None, dec=frozenset()))]
             states = nxt
         if isinstance(a, ast.Return):
-            states = [dict(s_, ret=self.value_of(frame, a.value, s_)) for s_ in states]
+            outs = []
+            for s_ in states:
+                r = self.value_of(frame, a.value, s_)
+                if r is None and a.value is not None:
+                    d = self.dec_value(frame, a.value, s_)
+                    r = ("dec", d) if d is not _UNK else None
+                outs.append(dict(s_, ret=r))
+            states = outs
         elif isinstance(a, (ast.Assign, ast.AnnAssign, ast.AugAssign, ast.NamedExpr)) or any(isinstance(x, ast.NamedExpr) for x in walk_no_nested(a)):
-            states = [self.assign(frame, a, s_) for s_ in states]
+            states = [self.assign(frame, a, self.decide(frame, a, s_)) for s_ in states]
+        elif n.kind == "stmt":
+            states = [self.forget(a, s_) for s_ in states]
         return states
+
+    # -- decisions kept in locals: `plan = _Plan.SWITCH` on one branch, `if plan is _Plan.SWITCH:` later
+    def dec_value(self, frame: _Frame, e: ast.AST | None, st: dict):
+        """constant / Enum member this expression is known to have on the path, else _UNK"""
+        if e is None:
+            return _UNK
+        e = strip_cast(e)
+        if isinstance(e, ast.Name) and frame.fi is not None and e.id in _scope_names(frame.fi):
+            return dict(st["dec"]).get(e.id, _UNK)
+        m = _enum_member(frame.repo, frame.module, e)
+        if m is not None:
+            return m
+        if isinstance(e, ast.Call) and st.get("ret") is not None and st["ret"][0] in ("dec", "const") and frame.fi is not None and _self_target(frame, e) is not None:
+            return st["ret"][1]
+        if isinstance(e, ast.UnaryOp) and isinstance(e.op, ast.Not):
+            t = _truth(self.dec_value(frame, e.operand, st))
+            return _UNK if t is None else not t
+        if isinstance(e, ast.Compare) and len(e.ops) == 1:
+            l, r = self.dec_value(frame, e.left, st), self.dec_value(frame, e.comparators[0], st)
+            return _UNK if l is _UNK or r is _UNK else _compare(e.ops[0], l, r)
+        if isinstance(e, ast.BoolOp):
+            vals = [_truth(self.dec_value(frame, x, st)) for x in e.values]
+            stop = not isinstance(e.op, ast.And)
+            if any(v is stop for v in vals) and all(v is not None for v in vals[:vals.index(stop)]):
+                return stop
+            return (not stop) if all(v is (not stop) for v in vals) else _UNK
+        if isinstance(e, (ast.Constant, ast.Tuple)):
+            v = _ev(frame, e)
+            return _hashable(v) if v is not _UNK else _UNK
+        return _UNK
+
+    def decide(self, frame: _Frame, a: ast.AST, st: dict) -> dict:
+        """`name = <decision>`: remember it; any other binding of a name forgets what was known about it"""
+        dec = dict(st["dec"])
+        simple = a.targets[0] if isinstance(a, ast.Assign) and len(a.targets) == 1 else a.target if isinstance(a, ast.AnnAssign) else None
+        value = a.value if isinstance(a, (ast.Assign, ast.AnnAssign)) else None
+        v = self.dec_value(frame, value, st) if isinstance(simple, ast.Name) and value is not None else _UNK
+        for x in walk_no_nested(a):
+            if isinstance(x, ast.Name) and isinstance(x.ctx, (ast.Store, ast.Del)):
+                dec.pop(x.id, None)
+        if isinstance(simple, ast.Name) and v is not _UNK:
+            dec[simple.id] = v
+        return dict(st, dec=frozenset(dec.items()))
+
+    @staticmethod
+    def forget(a: ast.AST, st: dict) -> dict:
+        bound = {x.id for x in walk_no_nested(a) if isinstance(x, ast.Name) and isinstance(x.ctx, (ast.Store, ast.Del))}
+        if isinstance(a, (ast.With, ast.AsyncWith)):
+            bound = {x.id for it in a.items if it.optional_vars is not None for x in ast.walk(it.optional_vars) if isinstance(x, ast.Name)}
+        return dict(st, dec=frozenset((k, v) for k, v in st["dec"] if k not in bound)) if bound and st["dec"] else st
 
     def relevant(self, frame: _Frame) -> bool:
         if _calls_through(frame, lambda fr, c: _is_exec(c)):
@@ -1585,6 +2699,8 @@ class _PragmaWalk:
     def edge(self, frame: _Frame, n, lab, st: dict) -> dict | None:
         if n.kind == "loop" and isinstance(n.ast, (ast.For, ast.AsyncFor)):
             it, _ = _deref(frame, n.ast.iter)
+            if lab is True and st["dec"]:
+                st = self.forget(n.ast.target, st)
             if isinstance(it, (ast.Tuple, ast.List)) and it.elts and not any(isinstance(x, (ast.Break, ast.Return)) for x in walk_no_nested(n.ast)):
                 # a loop over a non-empty literal runs its body (once per row: the effects of all rows are applied together)
                 if lab is True:
@@ -1596,6 +2712,20 @@ class _PragmaWalk:
             return st
         t = _fact_test(frame, fact_of(n.ast, lab))
         if t is None:
+            if frame.binds:
+                # a test on a parameter bound to a constant by the call this frame stands for (a flag handed down by the caller)
+                v = _ev(frame, n.ast)
+                if v is not _UNK and bool(v) != lab:
+                    return None
+            d = _truth(self.dec_value(frame, n.ast, st))          # a test on a decision made earlier on this path
+            if d is not None and d != lab:
+                return None
+            if d is None and frame.fi is not None:
+                for c in walk_no_nested(n.ast):
+                    h = _self_target(frame, c) if isinstance(c, ast.Call) and not _is_exec(c) else None
+                    if h is not None and not h.is_async and frame.depth() < _MAX_FRAMES and any(
+                            _tracked_kind(_bind_call(frame, c, h), x) is not None for x in walk_no_nested(h.node) if isinstance(x, (ast.Name, ast.Attribute))):
+                        self.unread.append(c)
             return st
         kind, member, vals = t
         if kind == "file":
@@ -1618,6 +2748,14 @@ def rule_pragmas(ctx: Ctx) -> None:
     repo = ctx.repo
     fi = repo.method("Database", "_initial_statements", DB)
     top = _top(ctx, fi)
+    if [p_ for p_ in fi.params() if p_ not in ("self", "cls")]:
+        # it takes arguments now (the `if initial_statements:` of open() may have moved into it): read it as open(initial_statements=True) calls it
+        topo = _top(ctx, repo.method("Database", "open", DB))
+        topo.vals = {"initial_statements": True}
+        sites = _calls_through(topo, lambda fr, c: _runs_own_method(fr, c, ("_initial_statements",)) is not None)
+        if len(sites) != 1:
+            raise AnalysisError("undecided: Database._initial_statements takes arguments and is not called from exactly one place of Database.open()")
+        top = _bind_call(sites[0][0], sites[0][1], fi)
     # every statement executed by _initial_statements (and the helpers of the object it calls) that sets a pragma
     walk = _PragmaWalk(ctx, top)
     ends = walk.run(top, walk.start())
@@ -1648,6 +2786,9 @@ def rule_pragmas(ctx: Ctx) -> None:
     dele = [here(fr, c) for v, fr, c in jm if v == "DELETE"]
     # every normal path of a file database ends in WAL / synchronous NORMAL (conditions on the mirrored locals evaluated per path)
     bad_j = [st for st in ends if st["journal"][0] != (True, frozenset(["WAL"]))]
+    if walk.unread and (bad_j or [st for st in ends if not (st["sync"][0] is not None and st["sync"][0][0] and st["sync"][0][1] <= {"NORMAL", 1})]):
+        raise AnalysisError(f"undecided: Database._initial_statements branches on `{norm(walk.unread[0])[:80]}`, a helper that looks at the journal settings "
+                            "and whose answer could not be related to them")
     left_delete = [st for st in bad_j if st["journal"][0] == (True, frozenset(["DELETE"]))]
     other_j = [st for st in bad_j if st not in left_delete]
     if wal or other_j:
@@ -1683,6 +2824,7 @@ def rule_pragmas(ctx: Ctx) -> None:
         rows = _row_of_call(fr, c, "_initial_statements")
         flag = [_flag_fact(ctx, lf, f, "initial_statements", rows) for lf, f in fs]
         ok = ok and bool(flag) and all(flag)
+    ok = ok or _walk_flag_runs(ctx, op, "initial_statements", "_initial_statements")
     defaults = {a.arg: const_value(d) for a, d in zip(op.node.args.args[-len(op.node.args.defaults):], op.node.args.defaults)}
     ok = ok and defaults.get("initial_statements") is True and defaults.get("prepare_visioning") is True
     ctx.check(ok, "pragmas", op, op.node, "open() applies the initial statements by default", "open() does not apply the journal settings by default")
@@ -1722,6 +2864,20 @@ def _tdt_fields(tdt: FuncInfo, repo=None) -> list[str] | None:
             if isinstance(names, tuple) and all(isinstance(x, str) for x in names) and isinstance(el, ast.Call) and chain(el.func) == "getattr" \
                     and len(el.args) == 2 and chain(el.args[0]) == "self" and isinstance(el.args[1], ast.Name) and el.args[1].id == g.target.id:
                 shapes.add(tuple(names))
+                continue
+            return None
+        if isinstance(v, ast.Call) and repo is not None and len(v.args) == 1 and not v.keywords and chain(v.args[0]) == "self":
+            # operator.attrgetter("a", "b")(self), the getter written in place or kept in a local / module / class level constant
+            g = resolve(tdt, v.func)
+            if isinstance(g, ast.Name) and not local_defs(tdt, g.id):
+                r = repo.resolve_name(tdt.module, g.id)
+                g = r[2] if isinstance(r, tuple) and r[0] == "const" else g
+            elif isinstance(g, ast.Attribute) and chain(g.value) in ("self", "cls", tdt.cls.name if tdt.cls is not None else "") and tdt.cls is not None \
+                    and tdt.cls.lookup_attr(g.attr) is not None and not _instance_overrides(tdt.cls, g.attr):
+                g = tdt.cls.lookup_attr(g.attr)
+            if isinstance(g, ast.Call) and (chain(g.func) or "").split(".")[-1] == "attrgetter" and len(g.args) >= 2 and not g.keywords \
+                    and all(isinstance(const_value(a), str) and "." not in const_value(a) for a in g.args):
+                shapes.add(tuple(const_value(a) for a in g.args))
                 continue
             return None
         if not isinstance(v, (ast.Tuple, ast.List)) or any(isinstance(x, ast.Starred) for x in v.elts):
@@ -1764,8 +2920,22 @@ def _bind_source(frame: _Frame, x: ast.AST, depth: int = 0) -> tuple:
         j = _ev(frame, x.slice)
         if type(j) is int and j >= 0:
             return ("field", j)
+    recv = None
     if isinstance(x, ast.Call) and isinstance(x.func, ast.Attribute) and x.func.attr == "key_to_bin" and not x.args and not x.keywords:
-        base, fr = _deref(frame, x.func.value)
+        recv = x.func.value
+    elif isinstance(x, ast.Call) and len(x.args) == 1 and not x.keywords and not isinstance(x.args[0], ast.Starred) and frame.fi is not None:
+        # operator.methodcaller("key_to_bin")(key) / PublicKey.key_to_bin(key), the caller written in place or held in a local / module constant
+        g, gfr = _deref(frame, x.func) if isinstance(x.func, ast.Name) and (local_defs(frame.fi, x.func.id) or x.func.id in frame.binds) else (x.func, frame)
+        if isinstance(g, ast.Name) and gfr.module is not None:
+            r = frame.repo.resolve_name(gfr.module, g.id)
+            g = r[2] if isinstance(r, tuple) and r[0] == "const" else g
+        if isinstance(g, ast.Call) and (chain(g.func) or "").split(".")[-1] == "methodcaller" and len(g.args) == 1 and not g.keywords and const_value(g.args[0]) == "key_to_bin":
+            recv = x.args[0]
+        elif isinstance(g, ast.Attribute) and g.attr == "key_to_bin" and isinstance(g.value, ast.Name) and frame.module is not None \
+                and frame.repo.resolve_class_expr(frame.module, g.value) is not None:
+            recv = x.args[0]
+    if recv is not None:
+        base, fr = _deref(frame, recv)
         if isinstance(base, ast.Name) and fr.caller is None and fr.fi is not None and base.id in fr.fi.params():
             return ("key", base.id)
     return ("other", norm(x))
@@ -1795,6 +2965,10 @@ def _bind_items(frame: _Frame, e: ast.AST | None, nfields: int, depth: int = 0) 
         return _bind_items(frame, e.args[0], nfields, depth + 1)
     if _is_tdt_call(frame, e):
         return [("field", j) for j in range(nfields)]
+    rec = _record_ctor(frame, e) if isinstance(e, ast.Call) else None
+    if rec is not None and rec[1] is not None:
+        # a NamedTuple row object: its fields, in declaration order, are the bound values
+        return [_bind_source(fr, x) for x, fr in rec[1]]
     return None
 
 
@@ -1808,11 +2982,60 @@ def _is_token_read(fi: FuncInfo, e: ast.AST | None, depth: int = 0) -> bool:
         return False
     if call_name(e) == "get_tokens_for":
         return True
+    if (chain(e.func) or "").split(".")[-1] in ("chain", "from_iterable") and len(e.args) == 1 and not e.keywords:
+        # itertools.chain(tokens) / chain.from_iterable([tokens]): the same members
+        a = resolve(fi, e.args[0])
+        if chain(e.func).endswith("from_iterable"):
+            return isinstance(a, (ast.Tuple, ast.List)) and len(a.elts) == 1 and _is_token_read(fi, a.elts[0], depth + 1)
+        return _is_token_read(fi, a, depth + 1)
     return chain(e.func) in _WRAP and bool(e.args) and _is_token_read(fi, e.args[0], depth + 1)
 
 
+def _pairs_as_comprehension(fi: FuncInfo, d: ast.AST | None) -> ast.AST | None:
+    """`map(lambda t: (t.get_hash(), t), tokens)` and `zip(map(methodcaller("get_hash"), tokens), tokens)` (tokens a materialised local) are the
+    generator `((t.get_hash(), t) for t in tokens)` written with itertools / operator: returned in that form, anything else unchanged"""
+    if not isinstance(d, ast.Call) or d.keywords or chain(d.func) not in ("map", "zip") or len(d.args) != 2:
+        return d
+    if chain(d.func) == "map":
+        lam = resolve(fi, d.args[0])
+        if isinstance(lam, ast.Lambda) and len(lam.args.args) == 1 and not (lam.args.vararg or lam.args.kwarg or lam.args.kwonlyargs or lam.args.defaults):
+            return ast.GeneratorExp(elt=lam.body, generators=[ast.comprehension(target=ast.Name(id=lam.args.args[0].arg, ctx=ast.Store()), iter=d.args[1], ifs=[], is_async=0)])
+        return d
+    keys, vals = resolve(fi, d.args[0]), d.args[1]
+    if not isinstance(strip_cast(vals), ast.Name) or not isinstance(keys, ast.Call) or keys.keywords:
+        return d                 # the same sequence must be walked twice: only a local that holds it qualifies
+    src = None
+    if chain(keys.func) == "map" and len(keys.args) == 2:
+        g = resolve(fi, keys.args[0])
+        if isinstance(g, ast.Call) and (chain(g.func) or "").split(".")[-1] == "methodcaller" and len(g.args) == 1 and not g.keywords and const_value(g.args[0]) == "get_hash":
+            src = keys.args[1]
+    if src is None or not (isinstance(strip_cast(src), ast.Name) and strip_cast(src).id == strip_cast(vals).id):
+        return d
+    ordered = resolve(fi, vals)
+    if not (isinstance(ordered, ast.Call) and chain(ordered.func) in ("list", "tuple", "sorted")):
+        return d                 # a set may be walked twice in the same order, but nothing says so: only list / tuple / sorted copies
+    t = ast.Name(id="_t", ctx=ast.Load())
+    elt = ast.Tuple(elts=[ast.Call(func=ast.Attribute(value=t, attr="get_hash", ctx=ast.Load()), args=[], keywords=[]), t], ctx=ast.Load())
+    return ast.GeneratorExp(elt=elt, generators=[ast.comprehension(target=ast.Name(id="_t", ctx=ast.Store()), iter=vals, ifs=[], is_async=0)])
+
+
 def _keyed_store(fi: FuncInfo, st: ast.AST, base: str, var: str) -> bool:
-    """st is `<base>[<var>.get_hash()] = <var>` (aliases of the base / the hash followed)"""
+    """st is `<base>[<var>.get_hash()] = <var>` (aliases of the base / the hash followed), also spelled operator.setitem(<base>, k, v),
+    <base>.__setitem__(k, v) or <base>.update({k: v})"""
+    if isinstance(st, ast.Expr) and isinstance(st.value, ast.Call) and not st.value.keywords:
+        c = st.value
+        q = (chain(c.func) or "").split(".")[-1]
+        if q == "setitem" and len(c.args) == 3 and isinstance(c.func, (ast.Name, ast.Attribute)) and (chain(c.func) in ("setitem", "operator.setitem")):
+            tgt, key, val = c.args
+        elif q == "__setitem__" and len(c.args) == 2 and isinstance(c.func, ast.Attribute):
+            tgt, key, val = c.func.value, c.args[0], c.args[1]
+        elif q == "update" and len(c.args) == 1 and isinstance(c.func, ast.Attribute) and isinstance(resolve(fi, c.args[0]), ast.Dict) \
+                and len(resolve(fi, c.args[0]).keys) == 1 and resolve(fi, c.args[0]).keys[0] is not None:
+            d = resolve(fi, c.args[0])
+            tgt, key, val = c.func.value, d.keys[0], d.values[0]
+        else:
+            return False
+        st = ast.Assign(targets=[ast.Subscript(value=tgt, slice=key, ctx=ast.Store())], value=val)
     if not isinstance(st, ast.Assign) or len(st.targets) != 1 or not isinstance(st.targets[0], ast.Subscript):
         return False
     t = st.targets[0]
@@ -1894,6 +3117,7 @@ def _reload_keeps_every_token(ctx: Ctx, pm: FuncInfo) -> None:
             d = resolve(pm, st.value.args[0])
         if isinstance(d, ast.Call) and chain(d.func) == "dict" and len(d.args) == 1 and not d.keywords:
             d = resolve(pm, d.args[0])
+        d = _pairs_as_comprehension(pm, d)
         if isinstance(d, (ast.GeneratorExp, ast.ListComp)) and len(d.generators) == 1 and isinstance(d.elt, ast.Tuple) and len(d.elt.elts) == 2:
             # update((t.get_hash(), t) for t in tokens): the same mapping written as pairs
             d = ast.DictComp(key=d.elt.elts[0], value=d.elt.elts[1], generators=d.generators)
@@ -1957,8 +3181,9 @@ def rule_schema(ctx: Ctx) -> None:
         ctx.check(not re.search(r"DROP\s+TABLE|DELETE\s+FROM\s+(?!option)", " ".join(texts), re.I), "schema-reopen", gs, gs.node, f"{c.name}: schema never drops data",
                   f"{c.name}: the schema script deletes stored records on open")
         cd = c.methods["check_database"]
-        scripts = [x for x in _sql_sites(_top(ctx, cd)) if call_name(x.call) == "executescript"]
-        ok = bool(scripts) and all(_committed_before_return(ctx, x) for x in scripts)
+        scripts = [x for x in _sql_sites(_top(ctx, cd)) if x.method == "executescript"]
+        ok = bool(scripts) and (all(_committed_before_return(ctx, x) for x in scripts)
+                                or _walk_clean_at_return(ctx, cd, lambda x: x.method == "executescript" or bool(_WRITE_SQL.match(x.sql))))
         ctx.check(ok, "schema-reopen", cd, cd.node, f"{c.name}.check_database commits the schema", f"{c.name}.check_database leaves the schema uncommitted")
     # keyed tables: INSERT OR IGNORE
     for fi in insert_functions(ctx):
@@ -1988,8 +3213,10 @@ def rule_schema(ctx: Ctx) -> None:
         for s_ in writes:
             e = s_.levels()[0][1]
             cols = _insert_columns(s_.sql)
+            if not cols and s_.text is not None and "{}" in s_.text or any("{" in c for c in cols):
+                raise AnalysisError(f"undecided: cannot read the column list of the INSERT in {fi.qualname}: `{s_.sql[:120]}`")
             b = s_.bindings_arg()
-            if b is not None and call_name(s_.call) == "executemany":
+            if b is not None and s_.method == "executemany":
                 seq, sfr = _deref(b[1], b[0])          # one row written through executemany([row])
                 b = (seq.elts[0], sfr) if isinstance(seq, (ast.Tuple, ast.List)) and len(seq.elts) == 1 and not isinstance(seq.elts[0], ast.Starred) else None
             items = _bind_items(b[1], b[0], len(fields)) if b is not None else None
@@ -2017,14 +3244,20 @@ def rule_schema(ctx: Ctx) -> None:
     # a record is written after the records it points to: token before its metadata, metadata before attestations over it
     ac = repo.method("PseudonymManager", "add_credential", "ipv8/attestation/identity/manager.py")
     topa = _top(ctx, ac)
-    md = _calls_through(topa, lambda fr, c: call_name(c) == "insert_metadata")
+    md = _calls_through(topa, lambda fr, c: _runs_named(fr, c, "insert_metadata"))
     ok = bool(md)
     for fr, c in md:
         # at some level of the call chain the token insert has completed on every path that reaches the metadata insert
         ok = ok and any(bool(tn) and all(ctx.cfg(lf.fi).must_complete(n, tn) for n in ctx.cfg(lf.fi).nodes_for(lc))
                         for lf, lc in [*fr.chain_calls(), (fr, c)]
-                        for tn in [_nodes_doing(ctx, lf, lambda f2: [k for k in calls(f2.fi) if call_name(k) == "insert_token"])])
+                        for tn in [_nodes_doing(ctx, lf, lambda f2: [k for k in calls(f2.fi) if _runs_named(f2, k, "insert_token")])])
     first = md[0] if md else None
+    ok = ok or _walk_order(ctx, ac, "insert_token", "insert_metadata")
+    if not ok and not md:
+        for fr in _all_frames(topa):
+            for n in walk_no_nested(fr.fi.node):
+                if (isinstance(n, ast.Attribute) and n.attr == "insert_metadata") or (isinstance(n, ast.Constant) and n.value == "insert_metadata"):
+                    raise AnalysisError(f"undecided: {fr.fi.qualname} takes `{norm(n)[:80]}` as a value; cannot tell when the metadata row is written relative to its token")
     ctx.check(ok, "schema-reopen", ac, (first[0].chain_calls()[0][1] if first[0].caller is not None else first[1]) if first else ac.node,
               "add_credential commits the token before the metadata that points to it",
               "the metadata row is committed before the token it points to: a kill between the two commits leaves a credential whose token is missing after reopen")
@@ -2098,12 +3331,120 @@ def rule_files_kept(ctx: Ctx) -> None:
                       "SQLite needs on reopen - deleting them loses every record committed since the last checkpoint although its insert call had returned")
 
 
+_TXN_SETTINGS = ("isolation_level", "autocommit")
+_CONNECT_POSITIONAL = ("database", "timeout", "detect_types", "isolation_level", "check_same_thread", "factory", "cached_statements", "uri")
+
+
+def _database_layer(ctx: Ctx) -> list[FuncInfo]:
+    out = []
+    for m in ctx.repo.modules.values():
+        for fi in m.all_functions:
+            if m.relpath in (DB, IDB, WDB) or (fi.cls is not None and fi.cls.is_subclass_of("Database")):
+                out.append(fi)
+    return out
+
+
+def _keeps_implicit_transactions(frame: _Frame, setting: str, value: ast.AST) -> bool | None:
+    """does this value for isolation_level / autocommit leave the sqlite3 module opening a transaction before INSERT and ending it
+    in Connection.commit()?  (None: the value cannot be read)"""
+    if setting == "autocommit" and (chain(value) or "").split(".")[-1] == "LEGACY_TRANSACTION_CONTROL":
+        return True
+    return _mode_value_ok(setting, _ev(frame, value))
+
+
+def _mode_value_ok(setting: str, v) -> bool | None:
+    if v is _UNK:
+        return None
+    if setting == "isolation_level":
+        return isinstance(v, str) and v.upper() in ("", "DEFERRED", "IMMEDIATE", "EXCLUSIVE")
+    return v is False or (type(v) is int and v == -1)
+
+
+def rule_transaction_mode(ctx: Ctx) -> None:
+    """
+    Everything above rests on one fact about the sqlite3 module: in its default mode it opens a transaction before the first INSERT
+    and Connection.commit() ends it - that is what makes a record appear completely or not at all, what the deferred-commit counter
+    of `with database:` groups, and what Database.commit() reaches.  A connection opened (or switched) with isolation_level=None or
+    autocommit=True has no such transaction: every statement is committed by SQLite on its own, Connection.commit() is a no-op, the
+    rows of a batch written inside `with database:` become durable one by one and a kill in the middle leaves a prefix of the batch
+    (a credential whose token or metadata is missing) visible after reopen although nothing of it was committed.
+    """
+    _G["repo"] = ctx.repo
+    layer = _database_layer(ctx)
+    n_connect = 0
+    why = ("the sqlite3 module no longer opens a transaction before INSERT and Connection.commit() becomes a no-op: Database.commit() and the "
+           "deferred commits of `with database:` stop grouping anything, every statement is durable on its own and a kill in the middle of a batch "
+           "leaves a partially written batch (a credential without its token / metadata) visible after reopen")
+    for fi in layer:
+        frame = _Frame(ctx.repo, fi, ctx=ctx)
+        for n in walk_no_nested(fi.node):
+            given: list[tuple[str, ast.AST]] = []
+            if isinstance(n, ast.Call):
+                q = _qualified_callee(fi.module, n)
+                is_connect = q in ("sqlite3.connect", "sqlite3.dbapi2.connect", "sqlite3.Connection")
+                n_connect += is_connect
+                # (a helper of the repository may have a flag of the same name: only calls that leave the repository are of interest)
+                own = isinstance(n.func, ast.Attribute) and isinstance(n.func.value, ast.Name) and n.func.value.id in ("self", "cls")
+                if is_connect or not (own or ctx.repo.resolve_call(fi, n)):
+                    given += [(k.arg, k.value) for k in n.keywords if k.arg in _TXN_SETTINGS]
+                if is_connect and not any(isinstance(a, ast.Starred) for a in n.args):
+                    given += [(_CONNECT_POSITIONAL[i], a) for i, a in enumerate(n.args) if i < len(_CONNECT_POSITIONAL) and _CONNECT_POSITIONAL[i] in _TXN_SETTINGS]
+                if is_connect and (any(isinstance(a, ast.Starred) for a in n.args) or any(k.arg is None for k in n.keywords)):
+                    spread = [k.value for k in n.keywords if k.arg is None]
+                    vals = [_ev(frame, x) for x in spread]
+                    if any(isinstance(a, ast.Starred) for a in n.args) or any(not isinstance(v, dict) for v in vals):
+                        raise AnalysisError(f"undecided: cannot read the arguments `{norm(n)[:100]}` hands to sqlite3.connect in {fi.qualname}")
+                    for v in vals:
+                        for key in _TXN_SETTINGS:
+                            if key in v:
+                                ok = _mode_value_ok(key, v[key])
+                                if ok is None:
+                                    raise AnalysisError(f"undecided: cannot read the value given for {key} in {fi.qualname}")
+                                ctx.check(ok, "transaction-mode", fi, n, f"{fi.qualname}: the connection keeps sqlite3's implicit transactions",
+                                          f"{fi.qualname} opens the connection with {key}={v[key]!r}: " + why)
+                if q == "setattr" and len(n.args) == 3 and const_value(n.args[1]) in _TXN_SETTINGS:
+                    given.append((const_value(n.args[1]), n.args[2]))
+            elif isinstance(n, (ast.Assign, ast.AnnAssign, ast.AugAssign)):
+                targets = n.targets if isinstance(n, ast.Assign) else [n.target]
+                for t in targets:
+                    # <connection>.isolation_level = ... (an attribute of the database object itself with that name is its own business)
+                    if isinstance(t, ast.Attribute) and t.attr in _TXN_SETTINGS and n.value is not None and not (isinstance(t.value, ast.Name) and t.value.id in ("self", "cls")):
+                        given.append((t.attr, n.value))
+            for setting, value in given:
+                verdict = _keeps_implicit_transactions(frame, setting, value)
+                if verdict is None:
+                    raise AnalysisError(f"undecided: cannot read the value `{norm(value)[:80]}` given for {setting} in {fi.qualname}")
+                ctx.check(verdict, "transaction-mode", fi, n,
+                          f"{fi.qualname}: {setting} keeps sqlite3's implicit transactions",
+                          f"{fi.qualname} sets {setting}={norm(value)} on the sqlite connection: " + why)
+    if not n_connect:
+        # the connection may be opened through a reference to the function (an alias, functools.partial): the settings above were still looked for
+        n_connect = sum(1 for fi in layer for n in walk_no_nested(fi.node) if isinstance(n, (ast.Attribute, ast.Name))
+                        and _qualified_callee(fi.module, ast.Call(func=n, args=[], keywords=[])) in ("sqlite3.connect", "sqlite3.dbapi2.connect", "sqlite3.Connection"))
+        for m in ctx.repo.modules.values():
+            if m.relpath in (DB, IDB, WDB):
+                for n in m.tree.body:
+                    if isinstance(n, (ast.Assign, ast.AnnAssign)):
+                        for x in ast.walk(n):
+                            if isinstance(x, (ast.Attribute, ast.Name)) and _qualified_callee(m, ast.Call(func=x, args=[], keywords=[])) in ("sqlite3.connect", "sqlite3.dbapi2.connect"):
+                                n_connect += 1
+                            if isinstance(x, ast.keyword) and x.arg in _TXN_SETTINGS:
+                                verdict = _keeps_implicit_transactions(_Frame(ctx.repo, module=m), x.arg, x.value)
+                                if verdict is None:
+                                    raise AnalysisError(f"undecided: cannot read the value `{norm(x.value)[:80]}` given for {x.arg} in {m.relpath}")
+                                ctx.check(verdict, "transaction-mode", m.relpath, n, f"{m.relpath}: {x.arg} keeps sqlite3's implicit transactions",
+                                          f"{m.relpath} sets {x.arg}={norm(x.value)} for the sqlite connection: " + why)
+    ctx.anchor(n_connect or None, "sqlite3.connect in the database layer")
+    ctx.instance("transaction-mode", DB, "the database layer opens its connection in sqlite3's default (implicit transaction) mode")
+
+
 def run(ctx: Ctx) -> None:
     rule_commit_after_insert(ctx)
     rule_no_deferred(ctx)
     rule_pragmas(ctx)
     rule_schema(ctx)
     rule_files_kept(ctx)
+    rule_transaction_mode(ctx)
     ctx.assume("SQLite's atomic commit in WAL mode with synchronous=NORMAL: a committed transaction survives a process kill; partial transactions are rolled back on reopen (trusted)")
     ctx.assume("power loss (as opposed to process kill) may lose the last WAL commits with synchronous=NORMAL; the property speaks of process kills")
 
@@ -2159,4 +3500,23 @@ WITNESSES = [
     {"name": "owner and authority keys bound to each other's column", "file": IDB, "rule": "schema-reopen",
      "old": "(public_key.key_to_bin(), authority_key.key_to_bin(), metadata_pointer, signature))",
      "new": "(authority_key.key_to_bin(), public_key.key_to_bin(), metadata_pointer, signature))"},
+    {"name": "connection opened without implicit transactions", "file": DB, "rule": "transaction-mode",
+     "old": "sqlite3.connect(self._file_path, check_same_thread=False)", "new": "sqlite3.connect(self._file_path, check_same_thread=False, isolation_level=None)"},
+    {"name": "connection switched to autocommit after connecting", "file": DB, "rule": "transaction-mode",
+     "old": "        self._connection.text_factory = bytes\n", "new": "        self._connection.text_factory = bytes\n        self._connection.isolation_level = None\n"},
+    {"name": "failing commit swallowed by contextlib.suppress", "rule": "no-deferred-commit", "edits": [
+        {"file": DB, "old": "import os\n", "new": "import os\nfrom contextlib import suppress\n"},
+        {"file": DB, "old": "        cast(\"Connection\", self._connection).commit()\n        return True",
+         "new": "        with suppress(Exception):\n            cast(\"Connection\", self._connection).commit()\n        return True"}]},
+    {"name": "single-exit commit() reports success on the deferred path", "file": DB, "rule": "no-deferred-commit",
+     "old": "        if self._pending_commits:\n            self._logger.debug(\"defer commit [%s]\", self._file_path)\n            self._pending_commits += 1\n            return False\n\n"
+            "        self._logger.debug(\"commit [%s]\", self._file_path)\n        cast(\"Connection\", self._connection).commit()\n        return True",
+     "new": "        done = True\n        if self._pending_commits:\n            self._pending_commits += 1\n        else:\n            cast(\"Connection\", self._connection).commit()\n        return done"},
+    {"name": "flagged commit() skips the real commit unless exiting", "file": DB, "rule": "no-deferred-commit",
+     "old": "        if self._pending_commits:\n            self._logger.debug(\"defer commit [%s]\", self._file_path)\n            self._pending_commits += 1\n            return False\n\n"
+            "        self._logger.debug(\"commit [%s]\", self._file_path)\n        cast(\"Connection\", self._connection).commit()\n        return True",
+     "new": "        idle = not self._pending_commits\n        if idle and exiting:\n            cast(\"Connection\", self._connection).commit()\n        elif not idle:\n            self._pending_commits += 1\n        return idle and exiting"},
+    {"name": "insert commits only when a flag says a row changed", "file": IDB, "rule": "commit-after-insert",
+     "old": "(public_key.key_to_bin(), token_pointer, signature, serialized_json_dict))\n        self.commit()",
+     "new": "(public_key.key_to_bin(), token_pointer, signature, serialized_json_dict))\n        changed = token_pointer is not None\n        if changed:\n            self.commit()"},
 ]
